@@ -1,10 +1,17 @@
 /-
 C01 — bridge escrow conservation and all-or-nothing transfer life-cycle.
 
-The invariant `Inv` is proved for every state reachable by any sequence of operations
-(`send`, `cancel`, direct `build`, governance tax/limit changes, funding, fully-voted claims,
-whole end-blocks) with an arbitrary fault (any collaborator call class, any call index) injected
-into every operation.
+Two invariants are proved for every state reachable by any sequence of operations (`send`, `cancel`,
+direct `build`, governance tax/limit changes, funding, fully-voted claims, whole end-blocks), each
+operation carrying an arbitrary fault *sequence* (any set of failing collaborator calls):
+
+* `Inv`  — the structural clauses: partition of the accepted transfers, escrow = Σ pending, supply.
+* `Logs` — the history logs are what they claim to be: the per-user ledger (balances), the minted
+  total = Σ of the deposit claims the tally applied successfully, the tally observed every nonce
+  `1 … lastObserved` exactly once, every burned transfer has an applied executed-batch claim.
+
+The logs are then tied to the *op history* (`accepted_provenance`, `refunded_provenance`,
+`burned_provenance`, `claims_from_history`, `fundLog_eq`).
 -/
 import PalomaModel.Lemmas.Bridge
 import PalomaModel.Gen.Atomicity
@@ -12,7 +19,7 @@ import PalomaModel.Gen.Atomicity
 namespace Paloma.Bridge
 open List
 
-/-- the C01 invariant -/
+/-- the C01 invariant (structural part) -/
 structure Inv (s : St) : Prop where
   /-- every accepted transfer is in exactly one place: pool, one open batch, refunded, burned -/
   life : s.accepted.Perm (s.pool ++ batched s ++ s.refunded ++ s.burned)
@@ -25,6 +32,57 @@ structure Inv (s : St) : Prop where
   bfresh : ∀ b ∈ s.batches, b.nonce ≤ s.lastBatch
   /-- supply = funded + attested deposits − burned (amount + tax) -/
   supply : ∀ tok, s.supply tok + owedTok tok s.burned = s.funded tok + s.minted tok
+
+/-- amounts of the log entries `(who, tok, amt)` for one token -/
+def sumTok (tok : Nat) (l : List (Nat × Nat × Nat)) : Nat :=
+  ((l.filter (fun e => e.2.1 == tok)).map (·.2.2)).sum
+
+/-- amounts of the log entries `(who, tok, amt)` for one holder and one token -/
+def sumFor (u tok : Nat) (l : List (Nat × Nat × Nat)) : Nat :=
+  ((l.filter (fun e => e.1 == u && e.2.1 == tok)).map (·.2.2)).sum
+
+/-- amount + tax of the transfers of one sender in one token -/
+def owedBy (u tok : Nat) (l : List Tx) : Nat :=
+  ((l.filter (fun t => t.sender == u && t.token == tok)).map Tx.owed).sum
+
+/-- the amount an observation minted for `tok`: the deposited amount if it is a deposit claim for
+    `tok` (a registered token) whose handler succeeded, else nothing -/
+def mintedBy (tok : Nat) (e : Nat × Claim × Res) : Nat :=
+  match e.2.1, e.2.2 with
+  | .deposit t amt _ true, .ok => if t = tok then amt else 0
+  | _, _ => 0
+
+/-- Σ of the deposit claims for `tok` the tally applied successfully -/
+def depositsOk (tok : Nat) (l : List (Nat × Claim × Res)) : Nat := (l.map (mintedBy tok)).sum
+
+/-- `n, n-1, …, 1` -/
+def countdown : Nat → List Nat
+  | 0 => []
+  | n + 1 => (n + 1) :: countdown n
+
+/-- the history logs are what they claim to be -/
+structure Logs (s : St) : Prop where
+  /-- coins that came from outside = Σ of the `fund` log -/
+  funded : ∀ tok, s.funded tok = sumTok tok s.fundLog
+  /-- minted coins were all credited to somebody -/
+  minted : ∀ tok, s.minted tok = sumTok tok s.creditLog
+  /-- … and they are exactly the deposit claims the tally applied successfully -/
+  credit : ∀ tok, s.minted tok = depositsOk tok s.applied
+  /-- the tally observed the nonces `lastObserved, …, 1`, each exactly once -/
+  nonces : s.applied.map (·.1) = countdown s.lastObserved
+  /-- … and what it observed at a nonce is the claim stored under that nonce -/
+  fromClaims : ∀ e ∈ s.applied, (e.1, e.2.1) ∈ s.claims
+  claimKeys : (s.claims.map (·.1)).Nodup
+  /-- a transfer is only ever burned by a successfully applied executed-batch claim for its token -/
+  burnedProv : ∀ t ∈ s.burned, ∃ n nonce eh, (n, Claim.executed t.token nonce eh, Res.ok) ∈ s.applied
+  /-- every credit of minted coins went to the receiver named in a successfully applied deposit claim of
+      that token and amount, or to the community pool -/
+  creditProv : ∀ e ∈ s.creditLog, ∃ n r, (n, Claim.deposit e.2.1 e.2.2 r true, Res.ok) ∈ s.applied ∧
+    (e.1 = communityPool ∨ r = some e.1)
+  /-- per-user ledger: what a user holds = what he received (funding, deposits) − what his accepted
+      transfers cost + what was refunded -/
+  ledger : ∀ u tok, s.bal u tok + owedBy u tok s.accepted =
+    sumFor u tok s.fundLog + sumFor u tok s.creditLog + owedBy u tok s.refunded
 
 /-! ## helper lemmas (not property theorems) -/
 section Lemmas
@@ -46,261 +104,196 @@ theorem pool_ids_nodup {s : St} (hi : Inv s) : (s.pool.map (·.id)).Nodup := by
 theorem upd_same (f : Nat → Nat) (k v : Nat) : upd f k v k = v := by simp [upd]
 theorem upd_other (f : Nat → Nat) (k v x : Nat) (h : x ≠ k) : upd f k v x = f x := by simp [upd, h]
 
-theorem send_inv (s : St) (f : Fault) (u tok amt h : Nat) (hi : Inv s) : Inv (send s f u tok amt h).1 := by
+theorem sendOk_inv (s : St) (u tok amt : Nat) (usage' : Option Usage) (hi : Inv s) :
+    Inv (sendOk s u tok amt usage') := by
   have hlife := hi.life
   have hesc := hi.escrow
   simp only [batched] at hlife hesc
-  unfold send
-  split
-  · exact hi
-  · split
-    · exact hi
-    · simp only
-      split
-      · exact hi
-      · split
-        · exact hi
-        · split
-          · exact hi
-          · split
-            · exact hi
-            · split
-              · exact hi
-              · -- accepted
-                constructor
-                · simp only [batched]
-                  exact Perm.cons _ hlife
-                · intro t ht
-                  simp only [List.mem_cons] at ht
-                  rcases ht with rfl | ht
-                  · simp
-                  · have := hi.fresh t ht; simp only; omega
-                · simp only [List.map_cons]
-                  refine List.nodup_cons.mpr ⟨?_, hi.nodup⟩
-                  intro hm
-                  rcases List.mem_map.mp hm with ⟨t, ht, hid⟩
-                  have := hi.fresh t ht
-                  omega
-                · intro tok'
-                  simp only [batched]
-                  rw [List.cons_append, owedTok_cons]
-                  by_cases e : tok = tok'
-                  · subst e; simp [upd, hesc tok, Tx.owed]; omega
-                  · have e' : tok' ≠ tok := fun x => e x.symm
-                    simp [upd, e, e', hesc tok']
-                · exact hi.btok
-                · exact hi.bkeys
-                · exact hi.bfresh
-                · exact hi.supply
+  constructor
+  · simp only [sendOk, batched]
+    exact Perm.cons _ hlife
+  · intro t ht
+    simp only [sendOk, List.mem_cons] at ht ⊢
+    rcases ht with rfl | ht
+    · simp [newTx]
+    · have := hi.fresh t ht; omega
+  · simp only [sendOk, List.map_cons]
+    refine List.nodup_cons.mpr ⟨?_, hi.nodup⟩
+    intro hm
+    rcases List.mem_map.mp hm with ⟨t, ht, hid⟩
+    have := hi.fresh t ht
+    simp only [newTx] at hid
+    omega
+  · intro tok'
+    simp only [sendOk, batched]
+    rw [List.cons_append, owedTok_cons]
+    by_cases e : tok = tok'
+    · subst e; simp [upd, hesc tok, newTx]; omega
+    · have e' : tok' ≠ tok := fun x => e x.symm
+      simp [upd, e, e', hesc tok', newTx]
+  · exact hi.btok
+  · exact hi.bkeys
+  · exact hi.bfresh
+  · exact hi.supply
 
-theorem cancel_inv (s : St) (f : Fault) (u id : Nat) (hi : Inv s) : Inv (cancel s f u id).1 := by
+theorem cancelOk_inv (s : St) (t : Tx) (hfind : findTx s.pool t.id = some t) (hi : Inv s) :
+    Inv (cancelOk s t) := by
   have hlife := hi.life
   have hesc := hi.escrow
   simp only [batched] at hlife hesc
-  unfold cancel
-  split
-  · exact hi
-  · split
-    · exact hi
-    · rename_i t hfind
-      split
-      · exact hi
-      · simp only
-        split
-        · exact hi
-        · split
-          · exact hi
-          · have ⟨htmem, htid⟩ := findTx_some hfind
-            subst htid
-            have hperm := filter_id_perm s.pool t htmem (pool_ids_nodup hi)
-            constructor
-            · simp only [batched]
-              -- accepted ~ pool ++ B ++ R ++ U ~ (t :: pool') ++ B ++ R ++ U ~ pool' ++ B ++ (t :: R) ++ U
-              refine hlife.trans ?_
-              have h1 : (s.pool ++ s.batches.flatMap (·.txs) ++ s.refunded ++ s.burned).Perm
-                  ((t :: s.pool.filter (fun x => x.id != t.id)) ++ s.batches.flatMap (·.txs) ++ s.refunded ++ s.burned) :=
-                Perm.append_right _ (Perm.append_right _ (Perm.append_right _ hperm))
-              refine h1.trans ?_
-              have hm := (perm_middle (a := t) (l₁ := s.pool.filter (fun x => x.id != t.id) ++ s.batches.flatMap (·.txs))
-                (l₂ := s.refunded ++ s.burned)).symm
-              simpa [List.append_assoc] using hm
-            · exact hi.fresh
-            · exact hi.nodup
-            · intro tok'
-              simp only [batched]
-              have hp : owedTok tok' (s.pool ++ s.batches.flatMap (·.txs)) =
-                  (if t.token = tok' then t.owed else 0) +
-                    owedTok tok' (s.pool.filter (fun x => x.id != t.id) ++ s.batches.flatMap (·.txs)) := by
-                rw [owedTok_append, owedTok_perm tok' hperm, owedTok_cons, owedTok_append]; omega
-              by_cases e : t.token = tok'
-              · subst e; simp only [upd_same, if_true] at *; rw [hesc t.token, hp]; omega
-              · have e' : tok' ≠ t.token := fun x => e x.symm
-                simp only [e, if_false, Nat.zero_add] at hp
-                rw [upd_other _ _ _ _ e', hesc tok', hp]
-            · exact hi.btok
-            · exact hi.bkeys
-            · exact hi.bfresh
-            · exact hi.supply
+  have ⟨htmem, _⟩ := findTx_some hfind
+  have hperm := filter_id_perm s.pool t htmem (pool_ids_nodup hi)
+  constructor
+  · simp only [cancelOk, batched]
+    refine hlife.trans ?_
+    have h1 : (s.pool ++ s.batches.flatMap (·.txs) ++ s.refunded ++ s.burned).Perm
+        ((t :: s.pool.filter (fun x => x.id != t.id)) ++ s.batches.flatMap (·.txs) ++ s.refunded ++ s.burned) :=
+      Perm.append_right _ (Perm.append_right _ (Perm.append_right _ hperm))
+    refine h1.trans ?_
+    have hm := (perm_middle (a := t) (l₁ := s.pool.filter (fun x => x.id != t.id) ++ s.batches.flatMap (·.txs))
+      (l₂ := s.refunded ++ s.burned)).symm
+    simpa [List.append_assoc] using hm
+  · exact hi.fresh
+  · exact hi.nodup
+  · intro tok'
+    simp only [cancelOk, batched]
+    have hp : owedTok tok' (s.pool ++ s.batches.flatMap (·.txs)) =
+        (if t.token = tok' then t.owed else 0) +
+          owedTok tok' (s.pool.filter (fun x => x.id != t.id) ++ s.batches.flatMap (·.txs)) := by
+      rw [owedTok_append, owedTok_perm tok' hperm, owedTok_cons, owedTok_append]; omega
+    by_cases e : t.token = tok'
+    · subst e; simp only [upd_same, if_true] at *; rw [hesc t.token, hp]; omega
+    · have e' : tok' ≠ t.token := fun x => e x.symm
+      simp only [e, if_false, Nat.zero_add] at hp
+      rw [upd_other _ _ _ _ e', hesc tok', hp]
+  · exact hi.btok
+  · exact hi.bkeys
+  · exact hi.bfresh
+  · exact hi.supply
 
-theorem buildOne_inv (s : St) (f : Fault) (tok time : Nat) (hi : Inv s) : Inv (buildOne s f tok time).1 := by
+theorem buildOk_inv (s : St) (tok time : Nat) (hi : Inv s) : Inv (buildOk s tok time) := by
   have hlife := hi.life
   have hesc := hi.escrow
   simp only [batched] at hlife hesc
-  unfold buildOne
-  simp only
-  split
-  · exact hi
-  · split
-    · exact hi
-    · split
-      · exact hi
-      · split
-        · exact hi
-        · have hsplit := build_split_perm s.pool tok
-          constructor
-          · simp only [batched, List.flatMap_cons]
-            refine hlife.trans ?_
-            refine Perm.append_right _ (Perm.append_right _ ?_)
-            -- pool ++ B ~ (rest ++ drop) ++ (take ++ B)
-            refine (Perm.append_right _ hsplit.symm).trans ?_
-            simp only [List.append_assoc]
-            refine perm_append_comm.trans ?_
-            simp only [List.append_assoc]
-            refine Perm.append_left _ ?_
-            refine Perm.append_left _ ?_
-            exact perm_append_comm
-          · exact hi.fresh
-          · exact hi.nodup
-          · intro tok'
-            simp only [batched, List.flatMap_cons]
-            rw [hesc tok', owedTok_append, ← owedTok_perm tok' hsplit]
-            simp only [owedTok_append]; omega
-          · intro b hb t ht
-            simp only [List.mem_cons] at hb
-            rcases hb with rfl | hb
-            · simp only at ht ⊢
-              have := (mem_sortDesc.mp (List.mem_of_mem_take ht))
-              simpa using (List.mem_filter.mp this).2
-            · exact hi.btok b hb t ht
-          · simp only [List.map_cons]
-            refine List.nodup_cons.mpr ⟨?_, hi.bkeys⟩
-            intro hm
-            rcases List.mem_map.mp hm with ⟨b, hb, hk⟩
-            have := hi.bfresh b hb
-            simp only [bkey, Prod.mk.injEq] at hk
-            omega
-          · intro b hb
-            simp only [List.mem_cons] at hb
-            rcases hb with rfl | hb
-            · simp
-            · have := hi.bfresh b hb; simp only; omega
-          · exact hi.supply
+  have hsplit := build_split_perm s.pool tok
+  constructor
+  · simp only [buildOk, batched, List.flatMap_cons, newBatch, selectedFor]
+    refine hlife.trans ?_
+    refine Perm.append_right _ (Perm.append_right _ ?_)
+    refine (Perm.append_right _ hsplit.symm).trans ?_
+    simp only [List.append_assoc]
+    refine perm_append_comm.trans ?_
+    simp only [List.append_assoc]
+    refine Perm.append_left _ ?_
+    refine Perm.append_left _ ?_
+    exact perm_append_comm
+  · exact hi.fresh
+  · exact hi.nodup
+  · intro tok'
+    simp only [buildOk, batched, List.flatMap_cons, newBatch, selectedFor]
+    rw [hesc tok', owedTok_append, ← owedTok_perm tok' hsplit]
+    simp only [owedTok_append]; omega
+  · intro b hb t ht
+    simp only [buildOk, List.mem_cons] at hb
+    rcases hb with rfl | hb
+    · simp only [newBatch, selectedFor] at ht ⊢
+      have := (mem_sortDesc.mp (List.mem_of_mem_take ht))
+      simpa using (List.mem_filter.mp this).2
+    · exact hi.btok b hb t ht
+  · simp only [buildOk, List.map_cons]
+    refine List.nodup_cons.mpr ⟨?_, hi.bkeys⟩
+    intro hm
+    rcases List.mem_map.mp hm with ⟨b, hb, hk⟩
+    have := hi.bfresh b hb
+    simp only [bkey, newBatch, Prod.mk.injEq] at hk
+    omega
+  · intro b hb
+    simp only [buildOk, List.mem_cons] at hb ⊢
+    rcases hb with rfl | hb
+    · simp [newBatch]
+    · have := hi.bfresh b hb; omega
+  · exact hi.supply
 
-theorem cancelBatch_inv (s : St) (f : Fault) (tok nonce : Nat) (hi : Inv s) :
-    Inv (cancelBatch s f tok nonce).1 := by
+theorem cancelBatchOk_inv (s : St) (b : Batch) (hbm : b ∈ s.batches) (hi : Inv s) :
+    Inv (cancelBatchOk s b) := by
   have hlife := hi.life
   have hesc := hi.escrow
   simp only [batched] at hlife hesc
-  unfold cancelBatch
-  split
-  · exact hi
-  · rename_i b hfind
-    simp only
-    split
-    · exact hi
-    · have ⟨hbm, hbt, hbn⟩ := findBatch_some hfind
-      subst hbt; subst hbn
-      have hperm := batched_remove_perm s.batches b hbm hi.bkeys
-      constructor
-      · simp only [batched]
-        refine hlife.trans ?_
-        refine Perm.append_right _ (Perm.append_right _ ?_)
-        refine (Perm.append_left _ hperm).trans ?_
-        simp only [← List.append_assoc]
-        exact Perm.append_right _ perm_append_comm
-      · exact hi.fresh
-      · exact hi.nodup
-      · intro tok'
-        simp only [batched]
-        rw [hesc tok', owedTok_append, owedTok_perm tok' hperm]
-        simp only [owedTok_append]; omega
-      · intro b' hb'
-        exact hi.btok b' ((removeBatch_sublist _ _ _).subset hb')
-      · exact (hi.bkeys).sublist ((removeBatch_sublist _ _ _).map _)
-      · intro b' hb'
-        exact hi.bfresh b' ((removeBatch_sublist _ _ _).subset hb')
-      · exact hi.supply
+  have hperm := batched_remove_perm s.batches b hbm hi.bkeys
+  constructor
+  · simp only [cancelBatchOk, batched]
+    refine hlife.trans ?_
+    refine Perm.append_right _ (Perm.append_right _ ?_)
+    refine (Perm.append_left _ hperm).trans ?_
+    simp only [← List.append_assoc]
+    exact Perm.append_right _ perm_append_comm
+  · exact hi.fresh
+  · exact hi.nodup
+  · intro tok'
+    simp only [cancelBatchOk, batched]
+    rw [hesc tok', owedTok_append, owedTok_perm tok' hperm]
+    simp only [owedTok_append]; omega
+  · intro b' hb'
+    exact hi.btok b' ((removeBatch_sublist _ _ _).subset hb')
+  · exact (hi.bkeys).sublist ((removeBatch_sublist _ _ _).map _)
+  · intro b' hb'
+    exact hi.bfresh b' ((removeBatch_sublist _ _ _).subset hb')
+  · exact hi.supply
 
-theorem execBatch_inv (s : St) (f : Fault) (tok nonce h : Nat) (hi : Inv s) :
-    Inv (execBatch s f tok nonce h).1 := by
+theorem execOk_inv (s : St) (b : Batch) (hbm : b ∈ s.batches)
+    (hesc' : (b.txs.map Tx.owed).sum ≤ s.escrow b.token) (hsup' : (b.txs.map Tx.owed).sum ≤ s.supply b.token)
+    (hi : Inv s) : Inv (execOk s b) := by
   have hlife := hi.life
   have hesc := hi.escrow
   simp only [batched] at hlife hesc
-  unfold execBatch
-  split
-  · exact hi
-  · rename_i b hfind
-    split
-    · exact hi
-    · simp only
-      split
-      · exact hi
-      · split
-        · exact hi
-        · rename_i hguard
-          have ⟨hbm, hbt, hbn⟩ := findBatch_some hfind
-          subst hbt; subst hbn
-          have hperm := batched_remove_perm s.batches b hbm hi.bkeys
-          have hown := owedTok_of_token b.token b.txs (hi.btok b hbm)
-          simp only [Bool.or_eq_true, decide_eq_true_eq, not_or, Nat.not_lt] at hguard
-          constructor
-          · simp only [batched]
-            refine hlife.trans ?_
-            -- pool ++ B ++ R ++ U  ~  pool ++ B' ++ R ++ (txs ++ U)
-            have h1 : (s.pool ++ s.batches.flatMap (·.txs)).Perm
-                (b.txs ++ (s.pool ++ (removeBatch s.batches b.token b.nonce).flatMap (·.txs))) := by
-              refine (Perm.append_left _ hperm).trans ?_
-              simp only [← List.append_assoc]
-              exact Perm.append_right _ perm_append_comm
-            refine (Perm.append_right _ (Perm.append_right _ h1)).trans ?_
-            simp only [List.append_assoc]
-            refine perm_append_comm.trans ?_
-            simp only [List.append_assoc]
-            refine Perm.append_left _ ?_
-            refine Perm.append_left _ ?_
-            refine Perm.append_left _ ?_
-            exact perm_append_comm
-          · exact hi.fresh
-          · exact hi.nodup
-          · intro tok'
-            simp only [batched]
-            have hp : owedTok tok' (s.pool ++ s.batches.flatMap (·.txs)) =
-                owedTok tok' b.txs + owedTok tok' (s.pool ++ (removeBatch s.batches b.token b.nonce).flatMap (·.txs)) := by
-              rw [owedTok_append, owedTok_perm tok' hperm]; simp only [owedTok_append]; omega
-            by_cases e : b.token = tok'
-            · subst e
-              rw [upd_same, hesc b.token, hp, hown]; omega
-            · have e' : tok' ≠ b.token := fun x => e x.symm
-              rw [upd_other _ _ _ _ e', hesc tok', hp, owedTok_of_other tok' b.token b.txs (hi.btok b hbm) e]
-              omega
-          · intro b' hb'
-            exact hi.btok b' ((removeBatch_sublist _ _ _).subset hb')
-          · exact (hi.bkeys).sublist ((removeBatch_sublist _ _ _).map _)
-          · intro b' hb'
-            exact hi.bfresh b' ((removeBatch_sublist _ _ _).subset hb')
-          · intro tok'
-            simp only
-            rw [owedTok_append]
-            by_cases e : b.token = tok'
-            · subst e
-              have := hi.supply b.token
-              rw [upd_same, hown]; omega
-            · have e' : tok' ≠ b.token := fun x => e x.symm
-              rw [upd_other _ _ _ _ e', owedTok_of_other tok' b.token b.txs (hi.btok b hbm) e]
-              have := hi.supply tok'; omega
+  have hperm := batched_remove_perm s.batches b hbm hi.bkeys
+  have hown := owedTok_of_token b.token b.txs (hi.btok b hbm)
+  constructor
+  · simp only [execOk, batched]
+    refine hlife.trans ?_
+    have h1 : (s.pool ++ s.batches.flatMap (·.txs)).Perm
+        (b.txs ++ (s.pool ++ (removeBatch s.batches b.token b.nonce).flatMap (·.txs))) := by
+      refine (Perm.append_left _ hperm).trans ?_
+      simp only [← List.append_assoc]
+      exact Perm.append_right _ perm_append_comm
+    refine (Perm.append_right _ (Perm.append_right _ h1)).trans ?_
+    simp only [List.append_assoc]
+    refine perm_append_comm.trans ?_
+    simp only [List.append_assoc]
+    refine Perm.append_left _ ?_
+    refine Perm.append_left _ ?_
+    refine Perm.append_left _ ?_
+    exact perm_append_comm
+  · exact hi.fresh
+  · exact hi.nodup
+  · intro tok'
+    simp only [execOk, batched]
+    have hp : owedTok tok' (s.pool ++ s.batches.flatMap (·.txs)) =
+        owedTok tok' b.txs + owedTok tok' (s.pool ++ (removeBatch s.batches b.token b.nonce).flatMap (·.txs)) := by
+      rw [owedTok_append, owedTok_perm tok' hperm]; simp only [owedTok_append]; omega
+    by_cases e : b.token = tok'
+    · subst e
+      rw [upd_same, hesc b.token, hp, hown]; omega
+    · have e' : tok' ≠ b.token := fun x => e x.symm
+      rw [upd_other _ _ _ _ e', hesc tok', hp, owedTok_of_other tok' b.token b.txs (hi.btok b hbm) e]
+      omega
+  · intro b' hb'
+    exact hi.btok b' ((removeBatch_sublist _ _ _).subset hb')
+  · exact (hi.bkeys).sublist ((removeBatch_sublist _ _ _).map _)
+  · intro b' hb'
+    exact hi.bfresh b' ((removeBatch_sublist _ _ _).subset hb')
+  · intro tok'
+    simp only [execOk]
+    rw [owedTok_append]
+    by_cases e : b.token = tok'
+    · subst e
+      have := hi.supply b.token
+      rw [upd_same, hown]; omega
+    · have e' : tok' ≠ b.token := fun x => e x.symm
+      rw [upd_other _ _ _ _ e', owedTok_of_other tok' b.token b.txs (hi.btok b hbm) e]
+      have := hi.supply tok'; omega
 
-theorem creditMinted_inv (s : St) (who tok amt : Nat) (hi : Inv s) :
-    Inv (creditTo (depositMinted s tok amt) who tok amt) := by
+theorem depositOk_inv (s : St) (who tok amt : Nat) (hi : Inv s) : Inv (depositOk s who tok amt) := by
   constructor
   · exact hi.life
   · exact hi.fresh
@@ -310,79 +303,66 @@ theorem creditMinted_inv (s : St) (who tok amt : Nat) (hi : Inv s) :
   · exact hi.bkeys
   · exact hi.bfresh
   · intro tok'
-    simp only [creditTo, depositMinted]
+    simp only [depositOk, creditTo, depositMinted]
     by_cases e : tok' = tok
     · subst e; simp only [upd_same]; have := hi.supply tok'; omega
     · simp only [upd_other _ _ _ _ e]; exact hi.supply tok'
 
-theorem depositToPool_inv (s : St) (f : Fault) (tok amt : Nat) (hi : Inv s) :
-    Inv (depositToPool s f tok amt).1 := by
-  unfold depositToPool
-  split
-  · exact hi
-  · exact creditMinted_inv s _ tok amt hi
+theorem estimate_flat (tok nonce est : Nat) (l : List Batch) :
+    (l.map (fun x => if x.token == tok && x.nonce == nonce then { x with estimate := est } else x)).flatMap (·.txs)
+      = l.flatMap (·.txs) := by
+  induction l with
+  | nil => rfl
+  | cons x xs ih =>
+    simp only [List.map_cons, List.flatMap_cons, ih]
+    split <;> rfl
 
-theorem deposit_inv (s : St) (f : Fault) (tok amt : Nat) (r : Option Nat) (k : Bool) (hi : Inv s) :
-    Inv (deposit s f tok amt r k).1 := by
-  unfold deposit
-  split
-  · exact hi
-  · split
-    · exact hi
-    · split
-      · exact depositToPool_inv s _ tok amt hi
-      · split
-        · exact depositToPool_inv s _ tok amt hi
-        · exact creditMinted_inv s _ tok amt hi
+theorem estimate_keys (tok nonce est : Nat) (l : List Batch) :
+    (l.map (fun x => if x.token == tok && x.nonce == nonce then { x with estimate := est } else x)).map bkey
+      = l.map bkey := by
+  induction l with
+  | nil => rfl
+  | cons x xs ih =>
+    simp only [List.map_cons, ih]
+    split <;> rfl
 
-theorem setEstimate_inv (s : St) (f : Fault) (tok nonce est : Nat) (hi : Inv s) :
-    Inv (setEstimate s f tok nonce est).1 := by
+theorem estimateOk_inv (s : St) (tok nonce est : Nat) (hi : Inv s) : Inv (estimateOk s tok nonce est) := by
   have hlife := hi.life
   have hesc := hi.escrow
   simp only [batched] at hlife hesc
-  unfold setEstimate
-  split
-  · exact hi
-  · split
-    · exact hi
-    · simp only
-      split
-      · exact hi
-      · have hflat : ∀ l : List Batch,
-            (l.map (fun x => if x.token == tok && x.nonce == nonce then { x with estimate := est } else x)).flatMap (·.txs)
-              = l.flatMap (·.txs) := by
-          intro l
-          induction l with
-          | nil => rfl
-          | cons x xs ih =>
-            simp only [List.map_cons, List.flatMap_cons, ih]
-            split <;> rfl
-        have hkeys : ∀ l : List Batch,
-            (l.map (fun x => if x.token == tok && x.nonce == nonce then { x with estimate := est } else x)).map bkey
-              = l.map bkey := by
-          intro l
-          induction l with
-          | nil => rfl
-          | cons x xs ih =>
-            simp only [List.map_cons, ih]
-            split <;> rfl
-        constructor
-        · simp only [batched, hflat]; exact hlife
-        · exact hi.fresh
-        · exact hi.nodup
-        · intro tok'; simp only [batched, hflat]; exact hesc tok'
-        · intro b hb t ht
-          simp only [List.mem_map] at hb
-          rcases hb with ⟨x, hx, rfl⟩
-          split at ht <;> split <;> first | exact hi.btok x hx t ht | skip
-          all_goals simp_all
-        · simp only [hkeys]; exact hi.bkeys
-        · intro b hb
-          simp only [List.mem_map] at hb
-          rcases hb with ⟨x, hx, rfl⟩
-          have := hi.bfresh x hx
-          split <;> simpa using this
-        · exact hi.supply
+  constructor
+  · simp only [estimateOk, batched, estimate_flat]; exact hlife
+  · exact hi.fresh
+  · exact hi.nodup
+  · intro tok'; simp only [estimateOk, batched, estimate_flat]; exact hesc tok'
+  · intro b hb t ht
+    simp only [estimateOk, List.mem_map] at hb
+    rcases hb with ⟨x, hx, rfl⟩
+    split at ht <;> split <;> first | exact hi.btok x hx t ht | skip
+    all_goals simp_all
+  · simp only [estimateOk, estimate_keys]; exact hi.bkeys
+  · intro b hb
+    simp only [estimateOk, List.mem_map] at hb
+    rcases hb with ⟨x, hx, rfl⟩
+    have := hi.bfresh x hx
+    split <;> simpa [estimateOk] using this
+  · exact hi.supply
+
+/-- the structural invariant does not mention cursor, observation log, claims, tax, limit, keys … -/
+theorem inv_congr {s s' : St} (hi : Inv s)
+    (h1 : s'.accepted = s.accepted) (h2 : s'.pool = s.pool) (h3 : s'.batches = s.batches)
+    (h4 : s'.refunded = s.refunded) (h5 : s'.burned = s.burned) (h6 : s'.lastTx = s.lastTx)
+    (h7 : s'.escrow = s.escrow) (h8 : s'.lastBatch = s.lastBatch) (h9 : s'.supply = s.supply)
+    (h10 : s'.funded = s.funded) (h11 : s'.minted = s.minted) : Inv s' := by
+  constructor
+  · simp only [batched, h1, h2, h3, h4, h5]; exact hi.life
+  · rw [h1, h6]; exact hi.fresh
+  · rw [h1]; exact hi.nodup
+  · simp only [batched, h7, h2, h3]; exact hi.escrow
+  · rw [h3]; exact hi.btok
+  · rw [h3]; exact hi.bkeys
+  · rw [h3, h8]; exact hi.bfresh
+  · rw [h9, h5, h10, h11]; exact hi.supply
 
 theorem fund_inv (s : St) (u tok amt : Nat) (hi : Inv s) : Inv (fund s u tok amt) := by
   constructor
@@ -399,151 +379,928 @@ theorem fund_inv (s : St) (u tok amt : Nat) (hi : Inv s) : Inv (fund s u tok amt
     · subst e; simp only [upd_same]; have := hi.supply tok'; omega
     · simp only [upd_other _ _ _ _ e]; exact hi.supply tok'
 
-theorem createBatches_inv (time : Nat) (toks : List Nat) :
-    ∀ (s : St) (f : Fault), Inv s → Inv (createBatches s f time toks).1 := by
-  induction toks with
-  | nil => intro s f hi; exact hi
-  | cons tok rest ih =>
-    intro s f hi
-    unfold createBatches
-    simp only
-    have h1 := buildOne_inv s f tok time hi
-    split
-    · exact h1
-    · exact ih _ _ h1
-
 theorem applyClaim_inv (s : St) (f : Fault) (c : Claim) (hi : Inv s) : Inv (applyClaim s f c).1 := by
-  cases c with
-  | executed tok nonce h => exact execBatch_inv s f tok nonce h hi
-  | deposit tok amt r k => exact deposit_inv s f tok amt r k hi
+  rcases applyClaim_cases s f c with ⟨_, h⟩ | ⟨_, ⟨tok, nonce, eh, b, _, hfind, _, h1, h2, h⟩ | ⟨tok, amt, r, who, _, _, h⟩⟩
+  · rw [h]; exact hi
+  · rw [h]; exact execOk_inv s b (findBatch_some hfind).1 h1 h2 hi
+  · rw [h]; exact depositOk_inv s who tok amt hi
 
-theorem withObserved_inv (s : St) (n : Nat) (hi : Inv s) : Inv { s with lastObserved := n } := by
-  constructor
-  · exact hi.life
-  · exact hi.fresh
-  · exact hi.nodup
-  · exact hi.escrow
-  · exact hi.btok
-  · exact hi.bkeys
-  · exact hi.bfresh
-  · exact hi.supply
-
-theorem tally_inv (fuel : Nat) : ∀ (s : St) (f : Fault), Inv s → Inv (tally s f fuel).1 := by
-  induction fuel with
-  | zero => intro s f hi; exact hi
-  | succ n ih =>
-    intro s f hi
-    unfold tally
+/-- `Inv` is preserved by every step: the lifting of Lemmas/Bridge.lean applies -/
+theorem inv_stepRel : StepRel (Preserves Inv) where
+  refl := fun _ h => h
+  trans := fun h1 h2 h => h2 (h1 h)
+  build := by
+    intro s f tok time hi
+    rcases buildOne_cases s f tok time with ⟨_, h⟩ | ⟨_, _, h⟩ <;> rw [h]
+    · exact hi
+    · exact buildOk_inv s tok time hi
+  cancelBatch := by
+    intro s f tok nonce hi
+    rcases cancelBatch_cases s f tok nonce with ⟨_, h⟩ | ⟨_, b, hfind, h⟩ <;> rw [h]
+    · exact hi
+    · exact cancelBatchOk_inv s b (findBatch_some hfind).1 hi
+  setEstimate := by
+    intro s f tok nonce est hi
+    rcases setEstimate_cases s f tok nonce est with ⟨_, h⟩ | ⟨_, b, _, _, h⟩ <;> rw [h]
+    · exact hi
+    · exact estimateOk_inv s tok nonce est hi
+  observe := by
+    intro s f n c _ _ hi
+    have h0 : Inv { s with lastObserved := n } := inv_congr hi rfl rfl rfl rfl rfl rfl rfl rfl rfl rfl rfl
+    have h1 := applyClaim_inv _ f c h0
+    rw [observe_state]
+    exact inv_congr h1 rfl rfl rfl rfl rfl rfl rfl rfl rfl rfl rfl
+  send := by
+    intro s f u tok amt h hi
+    rcases send_cases s f u tok amt h with ⟨_, h⟩ | ⟨_, usage', _, _, _, _, _, h⟩ <;> rw [h]
+    · exact hi
+    · exact sendOk_inv s u tok amt usage' hi
+  cancel := by
+    intro s f u id hi
+    rcases cancel_cases s f u id with ⟨_, h⟩ | ⟨_, t, hfind, _, h⟩ <;> rw [h]
+    · exact hi
+    · have := (findTx_some hfind).2
+      subst this
+      exact cancelOk_inv s t hfind hi
+  fund := fun s u tok amt hi => fund_inv s u tok amt hi
+  setTax := by
+    intro s tok c hi
+    unfold setTax
+    split
+    · exact inv_congr hi rfl rfl rfl rfl rfl rfl rfl rfl rfl rfl rfl
+    · split
+      · exact hi
+      · exact inv_congr hi rfl rfl rfl rfl rfl rfl rfl rfl rfl rfl rfl
+  setLimit := fun s tok c hi => inv_congr hi rfl rfl rfl rfl rfl rfl rfl rfl rfl rfl rfl
+  addClaim := by
+    intro s n c hi
+    unfold addClaim
     split
     · exact hi
-    · simp only
-      rename_i n c _
-      have h1 := applyClaim_inv { s with lastObserved := n } f c (withObserved_inv s n hi)
-      split
-      · exact h1
-      · exact ih _ _ h1
+    · exact inv_congr hi rfl rfl rfl rfl rfl rfl rfl rfl rfl rfl rfl
 
-theorem applyEstimates_inv (ests : List (Nat × Nat × Nat)) :
-    ∀ (s : St) (f : Fault), Inv s → Inv (applyEstimates s f ests).1 := by
-  induction ests with
-  | nil => intro s f hi; exact hi
-  | cons e rest ih =>
-    intro s f hi
-    obtain ⟨tok, nonce, est⟩ := e
-    unfold applyEstimates
+/-! ### the log invariant -/
+
+theorem sumTok_cons (tok : Nat) (e : Nat × Nat × Nat) (l : List (Nat × Nat × Nat)) :
+    sumTok tok (e :: l) = (if e.2.1 = tok then e.2.2 else 0) + sumTok tok l := by
+  unfold sumTok
+  by_cases h : e.2.1 = tok <;> simp [List.filter_cons, h]
+
+theorem sumFor_cons (u tok : Nat) (e : Nat × Nat × Nat) (l : List (Nat × Nat × Nat)) :
+    sumFor u tok (e :: l) = (if e.1 = u ∧ e.2.1 = tok then e.2.2 else 0) + sumFor u tok l := by
+  unfold sumFor
+  by_cases h : e.1 = u ∧ e.2.1 = tok
+  · simp [List.filter_cons, h.1, h.2]
+  · have : (e.1 == u && e.2.1 == tok) = false := by
+      simp only [Bool.and_eq_false_iff, beq_eq_false_iff_ne, ne_eq]
+      by_cases h1 : e.1 = u
+      · right; exact fun h2 => h ⟨h1, h2⟩
+      · left; exact h1
+    simp [List.filter_cons, this, h]
+
+theorem owedBy_cons (u tok : Nat) (t : Tx) (l : List Tx) :
+    owedBy u tok (t :: l) = (if t.sender = u ∧ t.token = tok then t.owed else 0) + owedBy u tok l := by
+  unfold owedBy
+  by_cases h : t.sender = u ∧ t.token = tok
+  · simp [List.filter_cons, h.1, h.2]
+  · have : (t.sender == u && t.token == tok) = false := by
+      simp only [Bool.and_eq_false_iff, beq_eq_false_iff_ne, ne_eq]
+      by_cases h1 : t.sender = u
+      · right; exact fun h2 => h ⟨h1, h2⟩
+      · left; exact h1
+    simp [List.filter_cons, this, h]
+
+theorem owedBy_append (u tok : Nat) (l₁ l₂ : List Tx) :
+    owedBy u tok (l₁ ++ l₂) = owedBy u tok l₁ + owedBy u tok l₂ := by
+  unfold owedBy; simp [List.filter_append, List.map_append, List.sum_append]
+
+theorem owedBy_perm (u tok : Nat) {l₁ l₂ : List Tx} (h : l₁.Perm l₂) : owedBy u tok l₁ = owedBy u tok l₂ := by
+  unfold owedBy
+  exact ((h.filter _).map _).sum_nat
+
+theorem depositsOk_cons (tok : Nat) (e : Nat × Claim × Res) (l : List (Nat × Claim × Res)) :
+    depositsOk tok (e :: l) = mintedBy tok e + depositsOk tok l := by
+  simp [depositsOk]
+
+theorem logs_init : Logs St.init := by
+  constructor <;> simp [St.init, sumTok, sumFor, owedBy, depositsOk, countdown]
+
+/-- the log invariant only mentions these fields -/
+theorem logs_congr {s s' : St} (hl : Logs s)
+    (h1 : s'.funded = s.funded) (h2 : s'.fundLog = s.fundLog) (h3 : s'.minted = s.minted)
+    (h4 : s'.creditLog = s.creditLog) (h5 : s'.applied = s.applied) (h6 : s'.lastObserved = s.lastObserved)
+    (h7 : s'.claims = s.claims) (h8 : s'.burned = s.burned) (h9 : s'.bal = s.bal)
+    (h10 : s'.accepted = s.accepted) (h11 : s'.refunded = s.refunded) : Logs s' := by
+  constructor
+  · rw [h1, h2]; exact hl.funded
+  · rw [h3, h4]; exact hl.minted
+  · rw [h3, h5]; exact hl.credit
+  · rw [h5, h6]; exact hl.nonces
+  · rw [h5, h7]; exact hl.fromClaims
+  · rw [h7]; exact hl.claimKeys
+  · rw [h8, h5]; exact hl.burnedProv
+  · rw [h4, h5]; exact hl.creditProv
+  · rw [h9, h10, h2, h4, h11]; exact hl.ledger
+
+theorem upd2_same (f : Nat → Nat → Nat) (u k v : Nat) : upd2 f u k v u k = v := by simp [upd2]
+theorem upd2_other (f : Nat → Nat → Nat) (u k v a b : Nat) (h : ¬ (a = u ∧ b = k)) : upd2 f u k v a b = f a b := by
+  simp [upd2, h]
+
+theorem sendOk_logs (s : St) (u tok amt : Nat) (usage' : Option Usage)
+    (hbal : amt + taxOf (s.tax tok) u amt ≤ s.bal u tok) (hl : Logs s) : Logs (sendOk s u tok amt usage') := by
+  constructor
+  · exact hl.funded
+  · exact hl.minted
+  · exact hl.credit
+  · exact hl.nonces
+  · exact hl.fromClaims
+  · exact hl.claimKeys
+  · exact hl.burnedProv
+  · exact hl.creditProv
+  · intro u' tok'
+    have h0 := hl.ledger u' tok'
+    simp only [sendOk]
+    rw [owedBy_cons]
+    by_cases e : u' = u ∧ tok' = tok
+    · obtain ⟨rfl, rfl⟩ := e
+      have h1 : (newTx s u' tok' amt).sender = u' ∧ (newTx s u' tok' amt).token = tok' := ⟨rfl, rfl⟩
+      have h2 : (newTx s u' tok' amt).owed = amt + taxOf (s.tax tok') u' amt := rfl
+      rw [upd2_same, if_pos h1, h2]; omega
+    · have h1 : ¬ ((newTx s u tok amt).sender = u' ∧ (newTx s u tok amt).token = tok') := by
+        intro h; exact e ⟨h.1.symm, h.2.symm⟩
+      rw [upd2_other _ _ _ _ _ _ e, if_neg h1]; omega
+
+theorem cancelOk_logs (s : St) (t : Tx) (hl : Logs s) : Logs (cancelOk s t) := by
+  constructor
+  · exact hl.funded
+  · exact hl.minted
+  · exact hl.credit
+  · exact hl.nonces
+  · exact hl.fromClaims
+  · exact hl.claimKeys
+  · exact hl.burnedProv
+  · exact hl.creditProv
+  · intro u' tok'
+    have h0 := hl.ledger u' tok'
+    simp only [cancelOk]
+    rw [owedBy_cons]
+    by_cases e : u' = t.sender ∧ tok' = t.token
+    · obtain ⟨rfl, rfl⟩ := e
+      rw [upd2_same, if_pos ⟨rfl, rfl⟩]; omega
+    · have h1 : ¬ (t.sender = u' ∧ t.token = tok') := by
+        intro h; exact e ⟨h.1.symm, h.2.symm⟩
+      rw [upd2_other _ _ _ _ _ _ e, if_neg h1]; omega
+
+theorem fund_logs (s : St) (u tok amt : Nat) (hl : Logs s) : Logs (fund s u tok amt) := by
+  constructor
+  · intro tok'
+    simp only [fund]
+    rw [sumTok_cons]
+    by_cases e : tok' = tok
+    · subst e; rw [upd_same, hl.funded tok']; simp; omega
+    · have e' : ¬ tok = tok' := fun h => e h.symm
+      rw [upd_other _ _ _ _ e, hl.funded tok']; simp [e']
+  · exact hl.minted
+  · exact hl.credit
+  · exact hl.nonces
+  · exact hl.fromClaims
+  · exact hl.claimKeys
+  · exact hl.burnedProv
+  · exact hl.creditProv
+  · intro u' tok'
+    have h0 := hl.ledger u' tok'
+    simp only [fund]
+    rw [sumFor_cons]
+    by_cases e : u' = u ∧ tok' = tok
+    · obtain ⟨rfl, rfl⟩ := e
+      rw [upd2_same]; simp; omega
+    · have h1 : ¬ (u = u' ∧ tok = tok') := by
+        intro h; exact e ⟨h.1.symm, h.2.symm⟩
+      rw [upd2_other _ _ _ _ _ _ e]; simp only [h1, if_false]; omega
+
+theorem countdown_succ (n : Nat) : countdown (n + 1) = (n + 1) :: countdown n := rfl
+
+/-- one observation of the tally keeps the log invariant (needs the structural invariant for the
+    token of a burned transfer) -/
+theorem observe_logs (s : St) (f : Fault) (n : Nat) (c : Claim) (hn : n = s.lastObserved + 1)
+    (hc : (n, c) ∈ s.claims) (hi : Inv s) (hl : Logs s) : Logs (observe s f n c).1 := by
+  rw [observe_state, observe_res]
+  rcases applyClaim_cases { s with lastObserved := n } f c with
+    ⟨hr, h⟩ | ⟨hr, ⟨tok, nonce, eh, b, hcl, hfind, _, _, _, h⟩ | ⟨tok, amt, r, who, hcl, hwho, h⟩⟩
+  · -- the handler failed: only cursor and log move
+    rw [h, hr]
+    constructor
+    · exact hl.funded
+    · exact hl.minted
+    · intro tok'; simp only; rw [depositsOk_cons, hl.credit tok']; simp [mintedBy]
+    · simp only [List.map_cons]; rw [hl.nonces, hn, countdown_succ]
+    · intro e he
+      simp only [List.mem_cons] at he
+      rcases he with rfl | he
+      · exact hc
+      · exact hl.fromClaims e he
+    · exact hl.claimKeys
+    · intro t ht
+      obtain ⟨m, nonce, eh, hm⟩ := hl.burnedProv t ht
+      exact ⟨m, nonce, eh, List.mem_cons_of_mem _ hm⟩
+    · intro e he
+      obtain ⟨m, r, hm, hw⟩ := hl.creditProv e he
+      exact ⟨m, r, List.mem_cons_of_mem _ hm, hw⟩
+    · exact hl.ledger
+  · -- an executed-batch claim burned the batch `b`
+    rw [h, hr]
+    have ⟨hbm, hbt, _⟩ := findBatch_some hfind
+    constructor
+    · exact hl.funded
+    · exact hl.minted
+    · intro tok'; simp only [execOk]; rw [depositsOk_cons, hl.credit tok']; simp [mintedBy, hcl]
+    · simp only [execOk, List.map_cons]; rw [hl.nonces, hn, countdown_succ]
+    · intro e he
+      simp only [execOk, List.mem_cons] at he
+      rcases he with rfl | he
+      · exact hc
+      · exact hl.fromClaims e he
+    · exact hl.claimKeys
+    · intro t ht
+      simp only [execOk, List.mem_append] at ht
+      rcases ht with ht | ht
+      · have : t.token = tok := by rw [hi.btok b hbm t ht]; exact hbt
+        refine ⟨n, nonce, eh, ?_⟩
+        simp only [execOk, this, hcl]
+        exact List.mem_cons_self
+      · obtain ⟨m, nonce', eh', hm⟩ := hl.burnedProv t ht
+        exact ⟨m, nonce', eh', List.mem_cons_of_mem _ hm⟩
+    · intro e he
+      obtain ⟨m, r, hm, hw⟩ := hl.creditProv e he
+      exact ⟨m, r, List.mem_cons_of_mem _ hm, hw⟩
+    · exact hl.ledger
+  · -- a deposit claim minted `amt` and credited `who`
+    rw [h, hr]
+    constructor
+    · exact hl.funded
+    · intro tok'
+      simp only [depositOk, creditTo, depositMinted]
+      rw [sumTok_cons]
+      by_cases e : tok' = tok
+      · subst e; rw [upd_same, hl.minted tok']; simp; omega
+      · have e' : ¬ tok = tok' := fun h => e h.symm
+        rw [upd_other _ _ _ _ e, hl.minted tok']; simp [e']
+    · intro tok'
+      simp only [depositOk, creditTo, depositMinted]
+      rw [depositsOk_cons]
+      by_cases e : tok' = tok
+      · subst e; rw [upd_same, hl.credit tok']; simp [mintedBy, hcl]; omega
+      · have e' : ¬ tok = tok' := fun h => e h.symm
+        rw [upd_other _ _ _ _ e, hl.credit tok']; simp [mintedBy, hcl, e']
+    · simp only [depositOk, creditTo, depositMinted, List.map_cons]; rw [hl.nonces, hn, countdown_succ]
+    · intro e he
+      simp only [depositOk, creditTo, depositMinted, List.mem_cons] at he
+      rcases he with rfl | he
+      · exact hc
+      · exact hl.fromClaims e he
+    · exact hl.claimKeys
+    · intro t ht
+      obtain ⟨m, nonce, eh, hm⟩ := hl.burnedProv t ht
+      exact ⟨m, nonce, eh, List.mem_cons_of_mem _ hm⟩
+    · intro e he
+      simp only [depositOk, creditTo, depositMinted, List.mem_cons] at he
+      rcases he with rfl | he
+      · refine ⟨n, r, ?_, ?_⟩
+        · simp only [depositOk, creditTo, depositMinted, hcl]; exact List.mem_cons_self
+        · rcases hwho with h | h
+          · exact Or.inl h
+          · exact Or.inr h
+      · obtain ⟨m, r', hm, hw⟩ := hl.creditProv e he
+        exact ⟨m, r', List.mem_cons_of_mem _ hm, hw⟩
+    · intro u' tok'
+      have h0 := hl.ledger u' tok'
+      simp only [depositOk, creditTo, depositMinted]
+      rw [sumFor_cons]
+      by_cases e : u' = who ∧ tok' = tok
+      · obtain ⟨rfl, rfl⟩ := e
+        rw [upd2_same]; simp; omega
+      · have h1 : ¬ (who = u' ∧ tok = tok') := by
+          intro h; exact e ⟨h.1.symm, h.2.symm⟩
+        rw [upd2_other _ _ _ _ _ _ e]; simp only [h1, if_false]; omega
+
+/-- both invariants together are preserved by every step -/
+theorem both_stepRel : StepRel (Preserves (fun s => Inv s ∧ Logs s)) where
+  refl := fun _ h => h
+  trans := fun h1 h2 h => h2 (h1 h)
+  build := by
+    intro s f tok time ⟨hi, hl⟩
+    refine ⟨inv_stepRel.build s f tok time hi, ?_⟩
+    rcases buildOne_cases s f tok time with ⟨_, h⟩ | ⟨_, _, h⟩ <;> rw [h]
+    · exact hl
+    · exact logs_congr hl rfl rfl rfl rfl rfl rfl rfl rfl rfl rfl rfl
+  cancelBatch := by
+    intro s f tok nonce ⟨hi, hl⟩
+    refine ⟨inv_stepRel.cancelBatch s f tok nonce hi, ?_⟩
+    rcases cancelBatch_cases s f tok nonce with ⟨_, h⟩ | ⟨_, b, _, h⟩ <;> rw [h]
+    · exact hl
+    · exact logs_congr hl rfl rfl rfl rfl rfl rfl rfl rfl rfl rfl rfl
+  setEstimate := by
+    intro s f tok nonce est ⟨hi, hl⟩
+    refine ⟨inv_stepRel.setEstimate s f tok nonce est hi, ?_⟩
+    rcases setEstimate_cases s f tok nonce est with ⟨_, h⟩ | ⟨_, b, _, _, h⟩ <;> rw [h]
+    · exact hl
+    · exact logs_congr hl rfl rfl rfl rfl rfl rfl rfl rfl rfl rfl rfl
+  observe := by
+    intro s f n c hn hc ⟨hi, hl⟩
+    exact ⟨inv_stepRel.observe s f n c hn hc hi, observe_logs s f n c hn hc hi hl⟩
+  send := by
+    intro s f u tok amt h ⟨hi, hl⟩
+    refine ⟨inv_stepRel.send s f u tok amt h hi, ?_⟩
+    rcases send_cases s f u tok amt h with ⟨_, h⟩ | ⟨_, usage', _, _, _, _, hbal, h⟩ <;> rw [h]
+    · exact hl
+    · exact sendOk_logs s u tok amt usage' hbal hl
+  cancel := by
+    intro s f u id ⟨hi, hl⟩
+    refine ⟨inv_stepRel.cancel s f u id hi, ?_⟩
+    rcases cancel_cases s f u id with ⟨_, h⟩ | ⟨_, t, _, _, h⟩ <;> rw [h]
+    · exact hl
+    · exact cancelOk_logs s t hl
+  fund := fun s u tok amt ⟨hi, hl⟩ => ⟨fund_inv s u tok amt hi, fund_logs s u tok amt hl⟩
+  setTax := by
+    intro s tok c ⟨hi, hl⟩
+    refine ⟨inv_stepRel.setTax s tok c hi, ?_⟩
+    unfold setTax
+    split
+    · exact logs_congr hl rfl rfl rfl rfl rfl rfl rfl rfl rfl rfl rfl
+    · split
+      · exact hl
+      · exact logs_congr hl rfl rfl rfl rfl rfl rfl rfl rfl rfl rfl rfl
+  setLimit := fun s tok c ⟨hi, hl⟩ =>
+    ⟨inv_stepRel.setLimit s tok c hi, logs_congr hl rfl rfl rfl rfl rfl rfl rfl rfl rfl rfl rfl⟩
+  addClaim := by
+    intro s n c ⟨hi, hl⟩
+    refine ⟨inv_stepRel.addClaim s n c hi, ?_⟩
+    unfold addClaim
+    split
+    · exact hl
+    · rename_i hany
+      constructor
+      · exact hl.funded
+      · exact hl.minted
+      · exact hl.credit
+      · exact hl.nonces
+      · intro e he
+        exact List.mem_append_left _ (hl.fromClaims e he)
+      · simp only [List.map_append, List.map_cons, List.map_nil]
+        refine List.nodup_append.mpr ⟨hl.claimKeys, by simp, ?_⟩
+        intro a ha b hb
+        simp only [List.mem_singleton] at hb
+        subst hb
+        intro hab
+        subst hab
+        apply hany
+        rcases List.mem_map.mp ha with ⟨x, hx, rfl⟩
+        exact List.any_eq_true.mpr ⟨x, hx, by simp⟩
+      · exact hl.burnedProv
+      · exact hl.creditProv
+      · exact hl.ledger
+
+/-! ### which op writes which log -/
+
+theorem frame_accepted : InnerRel (fun s s' => s'.accepted = s.accepted) :=
+  InnerRel.ofFrame (·.accepted) (fun _ _ _ => rfl) (fun _ _ => rfl) (fun _ _ _ _ => rfl) (fun _ _ => rfl)
+    (fun _ _ _ _ => rfl) (fun _ _ => rfl) (fun _ _ => rfl)
+
+theorem frame_refunded : InnerRel (fun s s' => s'.refunded = s.refunded) :=
+  InnerRel.ofFrame (·.refunded) (fun _ _ _ => rfl) (fun _ _ => rfl) (fun _ _ _ _ => rfl) (fun _ _ => rfl)
+    (fun _ _ _ _ => rfl) (fun _ _ => rfl) (fun _ _ => rfl)
+
+theorem frame_fundLog : InnerRel (fun s s' => s'.fundLog = s.fundLog) :=
+  InnerRel.ofFrame (·.fundLog) (fun _ _ _ => rfl) (fun _ _ => rfl) (fun _ _ _ _ => rfl) (fun _ _ => rfl)
+    (fun _ _ _ _ => rfl) (fun _ _ => rfl) (fun _ _ => rfl)
+
+theorem frame_claims : InnerRel (fun s s' => s'.claims = s.claims) :=
+  InnerRel.ofFrame (·.claims) (fun _ _ _ => rfl) (fun _ _ => rfl) (fun _ _ _ _ => rfl) (fun _ _ => rfl)
+    (fun _ _ _ _ => rfl) (fun _ _ => rfl) (fun _ _ => rfl)
+
+theorem frame_tax : InnerRel (fun s s' => s'.tax = s.tax) :=
+  InnerRel.ofFrame (·.tax) (fun _ _ _ => rfl) (fun _ _ => rfl) (fun _ _ _ _ => rfl) (fun _ _ => rfl)
+    (fun _ _ _ _ => rfl) (fun _ _ => rfl) (fun _ _ => rfl)
+
+theorem setTax_fields (s : St) (tok : Nat) (c : Option TaxCfg) :
+    (setTax s tok c).accepted = s.accepted ∧ (setTax s tok c).refunded = s.refunded ∧
+    (setTax s tok c).fundLog = s.fundLog ∧ (setTax s tok c).claims = s.claims ∧
+    (setTax s tok c).burned = s.burned ∧ (setTax s tok c).usage = s.usage ∧ (setTax s tok c).limit = s.limit ∧
+    (setTax s tok c).jailed = s.jailed ∧ (setTax s tok c).keys = s.keys ∧ (setTax s tok c).archive = s.archive ∧
+    (setTax s tok c).batches = s.batches := by
+  unfold setTax
+  split
+  · exact ⟨rfl, rfl, rfl, rfl, rfl, rfl, rfl, rfl, rfl, rfl, rfl⟩
+  · split <;> exact ⟨rfl, rfl, rfl, rfl, rfl, rfl, rfl, rfl, rfl, rfl, rfl⟩
+
+theorem addClaim_fields (s : St) (n : Nat) (c : Claim) :
+    (addClaim s n c).accepted = s.accepted ∧ (addClaim s n c).refunded = s.refunded ∧
+    (addClaim s n c).fundLog = s.fundLog ∧ (addClaim s n c).burned = s.burned ∧
+    (addClaim s n c).usage = s.usage ∧ (addClaim s n c).limit = s.limit ∧
+    (addClaim s n c).jailed = s.jailed ∧ (addClaim s n c).keys = s.keys ∧ (addClaim s n c).archive = s.archive ∧
+    (addClaim s n c).batches = s.batches ∧ (addClaim s n c).tax = s.tax := by
+  unfold addClaim
+  split <;> exact ⟨rfl, rfl, rfl, rfl, rfl, rfl, rfl, rfl, rfl, rfl, rfl⟩
+
+/-- `accepted` is written by an accepted send only, which prepends the transfer it records -/
+theorem apply_accepted (s : St) (op : Op) :
+    (apply s op).accepted = s.accepted ∨
+    ∃ f u tok amt h, op = .send f u tok amt h ∧ (send s f u tok amt h).2.2 = .ok ∧
+      (apply s op).accepted = newTx s u tok amt :: s.accepted := by
+  cases op with
+  | send f u tok amt h =>
+    rcases send_cases s f u tok amt h with ⟨_, h1⟩ | ⟨hr, usage', _, _, _, _, _, h1⟩
+    · left; simp only [apply, h1]
+    · right; exact ⟨f, u, tok, amt, h, rfl, hr, by simp only [apply, h1]; rfl⟩
+  | cancel f u id =>
+    left
+    rcases cancel_cases s f u id with ⟨_, h1⟩ | ⟨_, t, _, _, h1⟩ <;> simp only [apply, h1]; rfl
+  | build f tok time => exact Or.inl (frame_accepted.build s f tok time)
+  | fund u tok amt => exact Or.inl rfl
+  | setTax tok c => exact Or.inl (setTax_fields s tok c).1
+  | setLimit tok c => exact Or.inl rfl
+  | claim n c => exact Or.inl (addClaim_fields s n c).1
+  | endBlock f h now toks ests => exact Or.inl (frame_accepted.endBlock s f h now toks ests)
+
+/-- `refunded` is written by a successful cancel only: the sender's own pooled transfer is prepended
+    and exactly its amount plus its recorded tax is added to that sender's balance -/
+theorem apply_refunded (s : St) (op : Op) :
+    (apply s op).refunded = s.refunded ∨
+    ∃ f t, op = .cancel f t.sender t.id ∧ (cancel s f t.sender t.id).2.2 = .ok ∧ t ∈ s.pool ∧
+      apply s op = cancelOk s t := by
+  cases op with
+  | send f u tok amt h =>
+    left
+    rcases send_cases s f u tok amt h with ⟨_, h1⟩ | ⟨_, usage', _, _, _, _, _, h1⟩ <;> simp only [apply, h1]; rfl
+  | cancel f u id =>
+    rcases cancel_cases s f u id with ⟨_, h1⟩ | ⟨hr, t, hfind, hs, h1⟩
+    · left; simp only [apply, h1]
+    · right
+      have ⟨hm, hid⟩ := findTx_some hfind
+      subst hs; subst hid
+      exact ⟨f, t, rfl, hr, hm, h1⟩
+  | build f tok time => exact Or.inl (frame_refunded.build s f tok time)
+  | fund u tok amt => exact Or.inl rfl
+  | setTax tok c => exact Or.inl (setTax_fields s tok c).2.1
+  | setLimit tok c => exact Or.inl rfl
+  | claim n c => exact Or.inl (addClaim_fields s n c).2.1
+  | endBlock f h now toks ests => exact Or.inl (frame_refunded.endBlock s f h now toks ests)
+
+/-- `claims` is written by a claim op only -/
+theorem apply_claims (s : St) (op : Op) :
+    (apply s op).claims = s.claims ∨ ∃ n c, op = .claim n c ∧ (apply s op).claims = s.claims ++ [(n, c)] := by
+  cases op with
+  | send f u tok amt h =>
+    left
+    rcases send_cases s f u tok amt h with ⟨_, h1⟩ | ⟨_, usage', _, _, _, _, _, h1⟩ <;> simp only [apply, h1]; rfl
+  | cancel f u id =>
+    left
+    rcases cancel_cases s f u id with ⟨_, h1⟩ | ⟨_, t, _, _, h1⟩ <;> simp only [apply, h1]; rfl
+  | build f tok time => exact Or.inl (frame_claims.build s f tok time)
+  | fund u tok amt => exact Or.inl rfl
+  | setTax tok c => exact Or.inl (setTax_fields s tok c).2.2.2.1
+  | setLimit tok c => exact Or.inl rfl
+  | claim n c =>
+    simp only [apply, addClaim]
+    split
+    · exact Or.inl rfl
+    · exact Or.inr ⟨n, c, rfl, rfl⟩
+  | endBlock f h now toks ests => exact Or.inl (frame_claims.endBlock s f h now toks ests)
+
+/-- `burned` is written by an end-block only (the tally applying an executed-batch claim) -/
+theorem apply_burned (s : St) (op : Op) :
+    (apply s op).burned = s.burned ∨ ∃ f h now toks ests, op = .endBlock f h now toks ests := by
+  cases op with
+  | send f u tok amt h =>
+    left
+    rcases send_cases s f u tok amt h with ⟨_, h1⟩ | ⟨_, usage', _, _, _, _, _, h1⟩ <;> simp only [apply, h1]; rfl
+  | cancel f u id =>
+    left
+    rcases cancel_cases s f u id with ⟨_, h1⟩ | ⟨_, t, _, _, h1⟩ <;> simp only [apply, h1]; rfl
+  | build f tok time =>
+    left
+    rcases buildOne_cases s f tok time with ⟨_, h1⟩ | ⟨_, _, h1⟩ <;> simp only [apply, h1]; rfl
+  | fund u tok amt => exact Or.inl rfl
+  | setTax tok c => exact Or.inl (setTax_fields s tok c).2.2.2.2.1
+  | setLimit tok c => exact Or.inl rfl
+  | claim n c => exact Or.inl (addClaim_fields s n c).2.2.2.1
+  | endBlock f h now toks ests => exact Or.inr ⟨f, h, now, toks, ests, rfl⟩
+
+/-- the `fund` ops of a history, newest first -/
+def fundsOf : List Op → List (Nat × Nat × Nat)
+  | [] => []
+  | .fund u tok amt :: rest => fundsOf rest ++ [(u, tok, amt)]
+  | _ :: rest => fundsOf rest
+
+theorem apply_fundLog (s : St) (op : Op) : (apply s op).fundLog = fundsOf [op] ++ s.fundLog := by
+  cases op with
+  | send f u tok amt h =>
+    rcases send_cases s f u tok amt h with ⟨_, h1⟩ | ⟨_, usage', _, _, _, _, _, h1⟩ <;> simp only [apply, h1] <;> rfl
+  | cancel f u id =>
+    rcases cancel_cases s f u id with ⟨_, h1⟩ | ⟨_, t, _, _, h1⟩ <;> simp only [apply, h1] <;> rfl
+  | build f tok time => exact frame_fundLog.build s f tok time
+  | fund u tok amt => rfl
+  | setTax tok c => exact (setTax_fields s tok c).2.2.1
+  | setLimit tok c => rfl
+  | claim n c => exact (addClaim_fields s n c).2.2.1
+  | endBlock f h now toks ests => exact frame_fundLog.endBlock s f h now toks ests
+
+theorem fundsOf_cons (op : Op) (rest : List Op) : fundsOf (op :: rest) = fundsOf rest ++ fundsOf [op] := by
+  cases op <;> simp [fundsOf]
+
+theorem foldl_fundLog (ops : List Op) : ∀ s, (ops.foldl apply s).fundLog = fundsOf ops ++ s.fundLog := by
+  induction ops with
+  | nil => intro s; rfl
+  | cons op rest ih =>
+    intro s
+    rw [List.foldl_cons, ih, apply_fundLog, fundsOf_cons op rest, List.append_assoc]
+
+/-- with no failing collaborator call a known-token deposit is always applied -/
+theorem tick_points (f : Fault) (t : Target) : (f.tick t).1.points = f.points := rfl
+
+theorem tick_ok_of_no_points (f : Fault) (t : Target) (hf : f.points = []) : (f.tick t).2 = false := by
+  simp [Fault.tick, hf]
+
+theorem mem_countdown {x n : Nat} : x ∈ countdown n ↔ 1 ≤ x ∧ x ≤ n := by
+  induction n with
+  | zero => simp [countdown]; omega
+  | succ k ih => simp only [countdown, List.mem_cons, ih]; omega
+
+theorem countdown_nodup (n : Nat) : (countdown n).Nodup := by
+  induction n with
+  | zero => simp [countdown]
+  | succ k ih =>
+    simp only [countdown]
+    refine List.nodup_cons.mpr ⟨?_, ih⟩
+    intro h
+    have := (mem_countdown.mp h).2
+    omega
+
+theorem foldl_claims_from (ops : List Op) (x : Nat × Claim) :
+    ∀ s, x ∈ (ops.foldl apply s).claims → x ∈ s.claims ∨ Op.claim x.1 x.2 ∈ ops := by
+  intro s hx
+  rcases first_appearance apply (·.claims) x ops s hx with h | ⟨pre, op, rest, he, hn, hm⟩
+  · exact Or.inl h
+  · right
+    rcases apply_claims (pre.foldl apply s) op with h1 | ⟨n, c, hop, h1⟩
+    · rw [h1] at hm; exact absurd hm hn
+    · rw [h1, List.mem_append, List.mem_singleton] at hm
+      rcases hm with hm | hm
+      · exact absurd hm hn
+      · subst hm; rw [he, hop]; simp
+
+/-! ### failing sub-operations inside the end-block -/
+
+/-- everything but the tally's cursor and observation log is equal -/
+def CoreEq (s s' : St) : Prop := s' = { s with lastObserved := s'.lastObserved, applied := s'.applied }
+
+theorem CoreEq.refl (s : St) : CoreEq s s := rfl
+theorem CoreEq.trans {a b c : St} (h1 : CoreEq a b) (h2 : CoreEq b c) : CoreEq a c := by
+  unfold CoreEq at *
+  rw [h2, h1]
+
+theorem CoreEq.of_eq {s s' : St} (h : s' = s) : CoreEq s s' := by subst h; rfl
+
+theorem observe_rejected (s : St) (f : Fault) (n : Nat) (c : Claim) (hr : (observe s f n c).2.2 ≠ .ok) :
+    (observe s f n c).1 = { s with lastObserved := n, applied := (n, c, .rejected) :: s.applied } := by
+  rw [observe_state]
+  rw [observe_res] at hr ⊢
+  rcases applyClaim_cases { s with lastObserved := n } f c with ⟨h1, h2⟩ | ⟨h1, _⟩
+  · rw [h2, h1]
+  · exact absurd h1 hr
+
+theorem createBatches_no_ok (time : Nat) (toks : List Nat) : ∀ (s : St) (f : Fault),
+    (∀ r ∈ (createBatches s f time toks).2.2, r ≠ .ok) → (createBatches s f time toks).1 = s := by
+  induction toks with
+  | nil => intro s f _; rfl
+  | cons tok rest ih =>
+    intro s f
+    unfold createBatches
     simp only
-    exact ih _ _ (setEstimate_inv s f tok nonce est hi)
+    rcases buildOne_cases s f tok time with ⟨_, h⟩ | ⟨hok, _, _⟩
+    · split
+      · intro _; exact h
+      · intro hall
+        have := ih (buildOne s f tok time).1 (buildOne s f tok time).2.1
+          (fun r hr => hall r (List.mem_cons_of_mem _ hr))
+        rw [this, h]
+    · split
+      · rename_i hrej; rw [hok] at hrej; cases hrej
+      · intro hall
+        exact absurd hok (hall _ List.mem_cons_self)
 
-theorem timeouts_inv (now : Nat) (bs : List Batch) :
-    ∀ (s : St) (f : Fault), Inv s → Inv (timeouts s f now bs).1 := by
+theorem timeouts_no_ok (now : Nat) (bs : List Batch) : ∀ (s : St) (f : Fault),
+    (∀ r ∈ (timeouts s f now bs).2.2, r ≠ .ok) → (timeouts s f now bs).1 = s := by
   induction bs with
-  | nil => intro s f hi; exact hi
+  | nil => intro s f _; rfl
   | cons b rest ih =>
-    intro s f hi
+    intro s f
     unfold timeouts
     split
     · simp only
-      have h1 := cancelBatch_inv s f b.token b.nonce hi
-      split
-      · exact h1
-      · exact ih _ _ h1
-    · exact ih _ _ hi
+      rcases cancelBatch_cases s f b.token b.nonce with ⟨_, h⟩ | ⟨hok, _⟩
+      · split
+        · intro _; exact h
+        · intro hall
+          have := ih (cancelBatch s f b.token b.nonce).1 (cancelBatch s f b.token b.nonce).2.1
+            (fun r hr => hall r (List.mem_cons_of_mem _ hr))
+          rw [this, h]
+      · split
+        · rename_i hrej; rw [hok] at hrej; cases hrej
+        · intro hall
+          exact absurd hok (hall _ List.mem_cons_self)
+    · exact ih s f
 
-theorem endBlock_inv (s : St) (f : Fault) (h now : Nat) (toks : List Nat) (ests : List (Nat × Nat × Nat))
-    (hi : Inv s) : Inv (endBlock s f h now toks ests).1 := by
-  unfold endBlock
-  simp only
-  generalize hc : (if h % 50 == 0 then createBatches s f now toks else (s, f, [])) = r1
-  have h1 : Inv r1.1 := by
-    rw [← hc]
+theorem applyEstimates_no_ok (ests : List (Nat × Nat × Nat)) : ∀ (s : St) (f : Fault),
+    (∀ r ∈ (applyEstimates s f ests).2.2, r ≠ .ok) → (applyEstimates s f ests).1 = s := by
+  induction ests with
+  | nil => intro s f _; rfl
+  | cons e rest ih =>
+    intro s f
+    obtain ⟨tok, nonce, est⟩ := e
+    unfold applyEstimates
+    simp only
+    intro hall
+    rcases setEstimate_cases s f tok nonce est with ⟨_, h⟩ | ⟨hok, _⟩
+    · have := ih (setEstimate s f tok nonce est).1 (setEstimate s f tok nonce est).2.1
+        (fun r hr => hall r (List.mem_cons_of_mem _ hr))
+      rw [this, h]
+    · exact absurd hok (hall _ List.mem_cons_self)
+
+theorem tally_no_ok (fuel : Nat) : ∀ (s : St) (f : Fault),
+    (∀ r ∈ (tally s f fuel).2.2, r ≠ .ok) → CoreEq s (tally s f fuel).1 := by
+  induction fuel with
+  | zero => intro s f _; exact CoreEq.refl s
+  | succ k ih =>
+    intro s f
+    unfold tally
     split
-    · exact createBatches_inv now toks s f hi
-    · exact hi
-  exact timeouts_inv _ _ _ _ (applyEstimates_inv _ _ _ (tally_inv _ _ _ h1))
+    · intro _; exact CoreEq.refl s
+    · rename_i n c _
+      simp only
+      split
+      · intro hall
+        have hr := hall _ List.mem_cons_self
+        rw [observe_rejected s f n c hr]
+        rfl
+      · intro hall
+        have hr := hall _ List.mem_cons_self
+        have h1 : CoreEq s (observe s f n c).1 := by rw [observe_rejected s f n c hr]; rfl
+        exact h1.trans (ih _ _ (fun r hr => hall r (List.mem_cons_of_mem _ hr)))
 
-theorem config_inv (s : St) (tax : Nat → Option TaxCfg) (limit : Nat → Option LimitCfg)
-    (claims : List (Nat × Claim)) (hi : Inv s) :
-    Inv { s with tax := tax, limit := limit, claims := claims } := by
-  constructor
-  · exact hi.life
-  · exact hi.fresh
-  · exact hi.nodup
-  · exact hi.escrow
-  · exact hi.btok
-  · exact hi.bkeys
-  · exact hi.bfresh
-  · exact hi.supply
+/-- one whole successful keeper-level sub-operation of an end-block, or the bare observation of a claim
+    whose handler failed (cursor and log move, nothing else) -/
+inductive Whole : St → St → Prop where
+  | build (s : St) (tok time : Nat) : (selectedFor s tok).isEmpty = false → Whole s (buildOk s tok time)
+  | cancelBatch (s : St) (tok nonce : Nat) (b : Batch) : findBatch s.batches tok nonce = some b →
+      Whole s (cancelBatchOk s b)
+  | estimate (s : St) (tok nonce est : Nat) (b : Batch) : findBatch s.batches tok nonce = some b → b.estimate = 0 →
+      Whole s (estimateOk s tok nonce est)
+  | executed (s : St) (n tok nonce eh : Nat) (b : Batch) : (n, Claim.executed tok nonce eh) ∈ s.claims →
+      n = s.lastObserved + 1 → findBatch s.batches tok nonce = some b → eh < b.timeout →
+      Whole s { execOk { s with lastObserved := n } b with
+                  applied := (n, Claim.executed tok nonce eh, Res.ok) :: s.applied }
+  | deposited (s : St) (n tok amt : Nat) (r : Option Nat) (who : Nat) : (n, Claim.deposit tok amt r true) ∈ s.claims →
+      n = s.lastObserved + 1 → (who = communityPool ∨ r = some who) →
+      Whole s { depositOk { s with lastObserved := n } who tok amt with
+                  applied := (n, Claim.deposit tok amt r true, Res.ok) :: s.applied }
+  | observedOnly (s : St) (n : Nat) (c : Claim) : (n, c) ∈ s.claims → n = s.lastObserved + 1 →
+      Whole s { s with lastObserved := n, applied := (n, c, Res.rejected) :: s.applied }
+
+/-- finite sequences of whole sub-operations -/
+inductive WholeSteps : St → St → Prop where
+  | refl (s : St) : WholeSteps s s
+  | tail {a b c : St} : WholeSteps a b → Whole b c → WholeSteps a c
+
+theorem WholeSteps.single {a b : St} (h : Whole a b) : WholeSteps a b := .tail (.refl a) h
+
+theorem WholeSteps.trans {a b c : St} (h1 : WholeSteps a b) (h2 : WholeSteps b c) : WholeSteps a c := by
+  induction h2 with
+  | refl => exact h1
+  | tail _ hw ih => exact .tail ih hw
+
+theorem whole_innerRel : InnerRel WholeSteps where
+  refl := WholeSteps.refl
+  trans := WholeSteps.trans
+  build := by
+    intro s f tok time
+    rcases buildOne_cases s f tok time with ⟨_, h⟩ | ⟨_, hne, h⟩ <;> rw [h]
+    · exact .refl s
+    · exact .single (.build s tok time hne)
+  cancelBatch := by
+    intro s f tok nonce
+    rcases cancelBatch_cases s f tok nonce with ⟨_, h⟩ | ⟨_, b, hfind, h⟩ <;> rw [h]
+    · exact .refl s
+    · exact .single (.cancelBatch s tok nonce b hfind)
+  setEstimate := by
+    intro s f tok nonce est
+    rcases setEstimate_cases s f tok nonce est with ⟨_, h⟩ | ⟨_, b, hfind, he, h⟩ <;> rw [h]
+    · exact .refl s
+    · exact .single (.estimate s tok nonce est b hfind he)
+  observe := by
+    intro s f n c hn hc
+    rw [observe_state, observe_res]
+    rcases applyClaim_cases { s with lastObserved := n } f c with
+      ⟨hr, h⟩ | ⟨hr, ⟨tok, nonce, eh, b, hcl, hfind, hto, _, _, h⟩ | ⟨tok, amt, r, who, hcl, hwho, h⟩⟩
+    · rw [h, hr]; exact .single (.observedOnly s n c hc hn)
+    · rw [h, hr]; subst hcl; exact .single (.executed s n tok nonce eh b hc hn hfind hto)
+    · rw [h, hr]; subst hcl; exact .single (.deposited s n tok amt r who hc hn hwho)
+
+/-! ### fault-free histories: every known-token deposit claim is applied -/
+
+theorem deposit_ok_of_no_points (s : St) (f : Fault) (tok amt : Nat) (r : Option Nat) (hf : f.points = []) :
+    (deposit s f tok amt r true).2.2 = .ok := by
+  have t1 : ∀ (g : Fault) (t : Target), g.points = [] → (g.tick t).2 = false := fun g t hg => tick_ok_of_no_points g t hg
+  unfold deposit depositToPool
+  simp only [Bool.not_true, Bool.false_eq_true, if_false, t1 f tMint hf]
+  cases r with
+  | none => simp [t1 (f.tick tMint).1 tPool hf]
+  | some who => simp [t1 (f.tick tMint).1 tSend hf]
+
+theorem step_points (s : St) (f : Fault) :
+    (∀ tok time, (buildOne s f tok time).2.1.points = f.points) ∧
+    (∀ tok nonce, (cancelBatch s f tok nonce).2.1.points = f.points) ∧
+    (∀ tok nonce est, (setEstimate s f tok nonce est).2.1.points = f.points) ∧
+    (∀ tok nonce eh, (execBatch s f tok nonce eh).2.1.points = f.points) ∧
+    (∀ tok amt r k, (deposit s f tok amt r k).2.1.points = f.points) := by
+  refine ⟨?_, ?_, ?_, ?_, ?_⟩
+  · intro tok time; unfold buildOne; split; · rfl
+    split; · rfl
+    split; · rfl
+    split <;> rfl
+  · intro tok nonce; unfold cancelBatch; split; · rfl
+    split <;> rfl
+  · intro tok nonce est; unfold setEstimate; split; · rfl
+    split; · rfl
+    split <;> rfl
+  · intro tok nonce eh; unfold execBatch; split; · rfl
+    split; · rfl
+    split; · rfl
+    split <;> rfl
+  · intro tok amt r k; unfold deposit depositToPool; split; · rfl
+    split; · rfl
+    split
+    · split <;> rfl
+    · split
+      · split <;> rfl
+      · rfl
+
+/-- every observed deposit claim for a known token was applied successfully -/
+def DepositsApplied (s : St) : Prop :=
+  ∀ e ∈ s.applied, ∀ tok amt r, e.2.1 = Claim.deposit tok amt r true → e.2.2 = Res.ok
+
+theorem frame_applied_inner (s : St) (f : Fault) :
+    (∀ tok time, (buildOne s f tok time).1.applied = s.applied) ∧
+    (∀ tok nonce, (cancelBatch s f tok nonce).1.applied = s.applied) ∧
+    (∀ tok nonce est, (setEstimate s f tok nonce est).1.applied = s.applied) := by
+  refine ⟨?_, ?_, ?_⟩
+  · intro tok time
+    rcases buildOne_cases s f tok time with ⟨_, h⟩ | ⟨_, _, h⟩ <;> rw [h]; rfl
+  · intro tok nonce
+    rcases cancelBatch_cases s f tok nonce with ⟨_, h⟩ | ⟨_, b, _, h⟩ <;> rw [h]; rfl
+  · intro tok nonce est
+    rcases setEstimate_cases s f tok nonce est with ⟨_, h⟩ | ⟨_, b, _, _, h⟩ <;> rw [h]; rfl
+
+theorem applyClaim_applied (s : St) (f : Fault) (c : Claim) : (applyClaim s f c).1.applied = s.applied := by
+  rcases applyClaim_cases s f c with ⟨_, h⟩ | ⟨_, ⟨_, _, _, b, _, _, _, _, _, h⟩ | ⟨_, _, _, _, _, _, h⟩⟩ <;> rw [h] <;> rfl
+
+theorem nofault_innerRelF : InnerRelF (fun p q => p.2.points = [] → DepositsApplied p.1 →
+    (q.2.points = [] ∧ DepositsApplied q.1)) where
+  refl := fun _ h1 h2 => ⟨h1, h2⟩
+  trans := fun h1 h2 ha hb => h2 (h1 ha hb).1 (h1 ha hb).2
+  build := by
+    intro s f tok time hf hd
+    refine ⟨by simp only; rw [(step_points s f).1 tok time]; exact hf, ?_⟩
+    unfold DepositsApplied; simp only; rw [(frame_applied_inner s f).1 tok time]; exact hd
+  cancelBatch := by
+    intro s f tok nonce hf hd
+    refine ⟨by simp only; rw [(step_points s f).2.1 tok nonce]; exact hf, ?_⟩
+    unfold DepositsApplied; simp only; rw [(frame_applied_inner s f).2.1 tok nonce]; exact hd
+  setEstimate := by
+    intro s f tok nonce est hf hd
+    refine ⟨by simp only; rw [(step_points s f).2.2.1 tok nonce est]; exact hf, ?_⟩
+    unfold DepositsApplied; simp only; rw [(frame_applied_inner s f).2.2 tok nonce est]; exact hd
+  observe := by
+    intro s f n c _ _ hf hd
+    simp only at hf hd ⊢
+    constructor
+    · show (applyClaim { s with lastObserved := n } f c).2.1.points = []
+      cases c with
+      | executed tok nonce eh => exact ((step_points _ f).2.2.2.1 tok nonce eh).trans hf
+      | deposit tok amt r k => exact ((step_points _ f).2.2.2.2 tok amt r k).trans hf
+    · intro e he tok amt r hcl
+      rw [observe_state] at he
+      simp only [List.mem_cons] at he
+      rcases he with rfl | he
+      · simp only at hcl ⊢
+        subst hcl
+        rw [observe_res]
+        exact deposit_ok_of_no_points _ f tok amt r hf
+      · rw [applyClaim_applied] at he
+        exact hd e he tok amt r hcl
+  tick := fun s f t hf hd => ⟨hf, hd⟩
+
+/-- the fault sequence an op carries -/
+def Op.points : Op → List (Target × Nat)
+  | .send f .. => f.points
+  | .cancel f .. => f.points
+  | .build f .. => f.points
+  | .endBlock f .. => f.points
+  | _ => []
+
+theorem apply_depositsApplied (s : St) (op : Op) (hf : op.points = []) (hd : DepositsApplied s) :
+    DepositsApplied (apply s op) := by
+  cases op with
+  | send f u tok amt h =>
+    have : (apply s (.send f u tok amt h)).applied = s.applied := by
+      rcases send_cases s f u tok amt h with ⟨_, h1⟩ | ⟨_, usage', _, _, _, _, _, h1⟩ <;> simp only [apply, h1]; rfl
+    unfold DepositsApplied; rw [this]; exact hd
+  | cancel f u id =>
+    have : (apply s (.cancel f u id)).applied = s.applied := by
+      rcases cancel_cases s f u id with ⟨_, h1⟩ | ⟨_, t, _, _, h1⟩ <;> simp only [apply, h1]; rfl
+    unfold DepositsApplied; rw [this]; exact hd
+  | build f tok time =>
+    unfold DepositsApplied; simp only [apply]; rw [(frame_applied_inner s f).1 tok time]; exact hd
+  | fund u tok amt => exact hd
+  | setTax tok c =>
+    have : (setTax s tok c).applied = s.applied := by
+      unfold setTax; split; · rfl
+      split <;> rfl
+    unfold DepositsApplied; simp only [apply]; rw [this]; exact hd
+  | setLimit tok c => exact hd
+  | claim n c =>
+    have : (addClaim s n c).applied = s.applied := by unfold addClaim; split <;> rfl
+    unfold DepositsApplied; simp only [apply]; rw [this]; exact hd
+  | endBlock f h now toks ests =>
+    exact (nofault_innerRelF.endBlock s f h now toks ests hf hd).2
+
+theorem foldl_depositsApplied (ops : List Op) (hf : ∀ op ∈ ops, op.points = []) :
+    ∀ s, DepositsApplied s → DepositsApplied (ops.foldl apply s) := by
+  induction ops with
+  | nil => intro s hd; exact hd
+  | cons op rest ih =>
+    intro s hd
+    exact ih (fun o ho => hf o (List.mem_cons_of_mem _ ho)) _
+      (apply_depositsApplied s op (hf op List.mem_cons_self) hd)
+
+/-- the deposited amount of a claim for `tok` with a registered token, whatever the handler result -/
+def depositAmt (tok : Nat) : Claim → Nat
+  | .deposit t amt _ true => if t = tok then amt else 0
+  | _ => 0
+
+theorem mintedBy_of_applied (tok : Nat) (e : Nat × Claim × Res)
+    (h : ∀ t amt r, e.2.1 = Claim.deposit t amt r true → e.2.2 = Res.ok) : mintedBy tok e = depositAmt tok e.2.1 := by
+  obtain ⟨n, c, r⟩ := e
+  cases c with
+  | executed t nonce eh => simp [mintedBy, depositAmt]
+  | deposit t amt rc k =>
+    cases k with
+    | true =>
+      have := h t amt rc rfl
+      simp only at this
+      subst this
+      simp [mintedBy, depositAmt]
+    | false => cases r <;> simp [mintedBy, depositAmt]
+
+theorem find_claim {l : List (Nat × Claim)} (hnd : (l.map (·.1)).Nodup) {x : Nat × Claim} (hx : x ∈ l) :
+    l.find? (fun y => y.1 == x.1) = some x := by
+  induction l with
+  | nil => cases hx
+  | cons y ys ih =>
+    have hc := List.nodup_cons.mp (by simpa only [List.map_cons] using hnd)
+    rcases List.mem_cons.mp hx with rfl | hm
+    · simp
+    · have hne : y.1 ≠ x.1 := fun e => hc.1 (List.mem_map.mpr ⟨x, hm, e.symm⟩)
+      have : (y.1 == x.1) = false := by simpa using hne
+      simp only [List.find?_cons, this]
+      exact ih hc.2 hm
+
+theorem applied_lookup (claims : List (Nat × Claim)) (hnd : (claims.map (·.1)).Nodup) :
+    ∀ (l : List (Nat × Claim × Res)), (∀ e ∈ l, (e.1, e.2.1) ∈ claims) →
+      l.map (fun e => (e.1, e.2.1)) = (l.map (·.1)).filterMap (fun n => claims.find? (fun y => y.1 == n)) := by
+  intro l
+  induction l with
+  | nil => intro _; rfl
+  | cons e es ih =>
+    intro h
+    have h1 := find_claim hnd (h e List.mem_cons_self)
+    simp only at h1
+    simp only [List.map_cons, List.filterMap_cons, h1]
+    rw [ih (fun x hx => h x (List.mem_cons_of_mem _ hx))]
 
 end Lemmas
 
-/-- every operation the chain can perform on the bridge, each with its own injected fault -/
-inductive Op where
-  | send (f : Fault) (u tok amt h : Nat)
-  | cancel (f : Fault) (u id : Nat)
-  | build (f : Fault) (tok time : Nat)
-  | fund (u tok amt : Nat)
-  | setTax (tok : Nat) (c : Option TaxCfg)
-  | setLimit (tok : Nat) (c : Option LimitCfg)
-  | claim (n : Nat) (c : Claim)
-  | endBlock (f : Fault) (h now : Nat) (toks : List Nat) (ests : List (Nat × Nat × Nat))
-
-def apply (s : St) : Op → St
-  | .send f u tok amt h => (send s f u tok amt h).1
-  | .cancel f u id => (cancel s f u id).1
-  | .build f tok time => (buildOne s f tok time).1
-  | .fund u tok amt => fund s u tok amt
-  | .setTax tok c => { s with tax := updO s.tax tok c }
-  | .setLimit tok c => { s with limit := updO s.limit tok c }
-  | .claim n c => addClaim s n c
-  | .endBlock f h now toks ests => (endBlock s f h now toks ests).1
-
-def run (ops : List Op) : St := ops.foldl apply St.init
-
 /-! ## Property theorems (C01) -/
 
-/-- **reachable_inv.** The whole invariant holds in every reachable state, whatever faults
-were injected along the way. -/
-theorem reachable_inv (ops : List Op) : Inv (run ops) := by
-  unfold run
-  suffices h : ∀ s, Inv s → Inv (ops.foldl apply s) from h _ inv_init
-  induction ops with
-  | nil => intro s hi; exact hi
-  | cons op rest ih =>
-    intro s hi
-    apply ih
-    cases op with
-    | send f u tok amt h => exact send_inv s f u tok amt h hi
-    | cancel f u id => exact cancel_inv s f u id hi
-    | build f tok time => exact buildOne_inv s f tok time hi
-    | fund u tok amt => exact fund_inv s u tok amt hi
-    | setTax tok c => exact config_inv s _ s.limit s.claims hi
-    | setLimit tok c => exact config_inv s s.tax _ s.claims hi
-    | claim n c =>
-      simp only [apply, addClaim]
-      split
-      · exact hi
-      · exact config_inv s s.tax s.limit _ hi
-    | endBlock f h now toks ests => exact endBlock_inv s f h now toks ests hi
+/-- **reachable_inv.** The whole structural invariant holds in every reachable state, whatever fault
+sequences were injected along the way. -/
+theorem reachable_inv (ops : List Op) : Inv (run ops) :=
+  inv_stepRel.foldl ops St.init inv_init
+
+/-- **reachable_logs.** The log invariant holds in every reachable state: the history logs the other
+theorems speak about are tied to balances, cursor, stored claims and to each other. -/
+theorem reachable_logs (ops : List Op) : Logs (run ops) :=
+  (both_stepRel.foldl ops St.init ⟨inv_init, logs_init⟩).2
 
 /-- **escrow_eq_pending.** For every token the escrow balance equals the sum of amount+tax over
 the transfers waiting in the pool or inside an open batch. -/
@@ -552,119 +1309,351 @@ theorem escrow_eq_pending (ops : List Op) (tok : Nat) :
   (reachable_inv ops).escrow tok
 
 /-- **lifecycle_partition.** The accepted transfers are exactly (as a multiset, ids pairwise
-distinct) the union of pool, open batches, refunded and burned: each is in exactly one place. -/
+distinct) the union of pool, open batches, refunded and burned: each is in exactly one place.
+What "accepted", "refunded" and "burned" mean is pinned down by the next three theorems. -/
 theorem lifecycle_partition (ops : List Op) :
     (run ops).accepted.Perm ((run ops).pool ++ batched (run ops) ++ (run ops).refunded ++ (run ops).burned) ∧
     (((run ops).pool ++ batched (run ops) ++ (run ops).refunded ++ (run ops).burned).map (·.id)).Nodup := by
   have hi := reachable_inv ops
   exact ⟨hi.life, (hi.life.map _).nodup_iff.mp hi.nodup⟩
 
-/-- **supply_delta.** Total supply of a token = coins funded from outside + attested deposits
-− (amount + tax) of burned transfers. -/
-theorem supply_delta (ops : List Op) (tok : Nat) :
-    (run ops).supply tok + owedTok tok (run ops).burned = (run ops).funded tok + (run ops).minted tok :=
-  (reachable_inv ops).supply tok
+/-- **accepted_provenance.** `accepted` holds exactly the transfers of the sends that reported success:
+every entry was recorded by a `send` op of the history that returned `ok`, with the id that send
+allocated and the tax computed from the tax setting in force *at that moment* (`newTx`); and an `ok`
+send prepends exactly that record (second part, for every state). -/
+theorem accepted_provenance (ops : List Op) (t : Tx) (ht : t ∈ (run ops).accepted) :
+    ∃ pre f h rest, ops = pre ++ .send f t.sender t.token t.amount h :: rest ∧
+      (send (run pre) f t.sender t.token t.amount h).2.2 = .ok ∧
+      t = newTx (run pre) t.sender t.token t.amount := by
+  rcases first_appearance apply (·.accepted) t ops St.init ht with h | ⟨pre, op, rest, he, hn, hm⟩
+  · simp [St.init] at h
+  · rcases apply_accepted (pre.foldl apply St.init) op with h1 | ⟨f, u, tok, amt, h, hop, hok, h1⟩
+    · rw [h1] at hm; exact absurd hm hn
+    · rw [h1, List.mem_cons] at hm
+      rcases hm with hm | hm
+      · subst hm
+        exact ⟨pre, f, h, rest, by rw [he, hop]; rfl, hok, rfl⟩
+      · exact absurd hm hn
 
-/-- **failed_op_is_noop.** Any bridge operation that reports failure leaves the whole state
-(pool, batches, balances, escrow, supply, counters, usage) exactly as it was — for every fault. -/
+theorem send_ok_records (s : St) (f : Fault) (u tok amt h : Nat) (hok : (send s f u tok amt h).2.2 = .ok) :
+    (send s f u tok amt h).1.accepted = newTx s u tok amt :: s.accepted ∧
+    (send s f u tok amt h).1.pool = newTx s u tok amt :: s.pool := by
+  rcases send_cases s f u tok amt h with ⟨hr, _⟩ | ⟨_, usage', _, _, _, _, _, h1⟩
+  · rw [hr] at hok; cases hok
+  · rw [h1]; exact ⟨rfl, rfl⟩
+
+/-- **refunded_provenance** ("refunded in full to its sender"). Every transfer in `refunded` got there
+by a `cancel` op of the history, issued by the transfer's own sender, that returned `ok` while the
+transfer was waiting in the pool; and that very step paid exactly `amount + tax` (the tax recorded at
+acceptance) to the sender's balance in the transfer's token, touched no other balance, and took the
+same sum out of the escrow. -/
+theorem refunded_provenance (ops : List Op) (t : Tx) (ht : t ∈ (run ops).refunded) :
+    ∃ pre f rest, ops = pre ++ .cancel f t.sender t.id :: rest ∧
+      (cancel (run pre) f t.sender t.id).2.2 = .ok ∧ t ∈ (run pre).pool ∧
+      (run (pre ++ [.cancel f t.sender t.id])).bal =
+        upd2 (run pre).bal t.sender t.token ((run pre).bal t.sender t.token + (t.amount + t.tax)) ∧
+      (run (pre ++ [.cancel f t.sender t.id])).escrow =
+        upd (run pre).escrow t.token ((run pre).escrow t.token - (t.amount + t.tax)) ∧
+      t.amount + t.tax ≤ (run pre).escrow t.token := by
+  rcases first_appearance apply (·.refunded) t ops St.init ht with h | ⟨pre, op, rest, he, hn, hm⟩
+  · simp [St.init] at h
+  · rcases apply_refunded (pre.foldl apply St.init) op with h1 | ⟨f, t', hop, hok, hpool, h1⟩
+    · rw [h1] at hm; exact absurd hm hn
+    · rw [h1] at hm
+      simp only [cancelOk, List.mem_cons] at hm
+      rcases hm with hm | hm
+      · subst hm
+        refine ⟨pre, f, rest, by rw [he, hop], hok, hpool, ?_, ?_, ?_⟩
+        · rw [run_snoc, ← hop]; show (apply (run pre) op).bal = _; rw [show run pre = pre.foldl apply St.init from rfl, h1]; rfl
+        · rw [run_snoc, ← hop]; show (apply (run pre) op).escrow = _; rw [show run pre = pre.foldl apply St.init from rfl, h1]; rfl
+        · -- the escrow covers every pending transfer
+          have hi := reachable_inv pre
+          have hesc := hi.escrow t.token
+          have : owedTok t.token (run pre).pool ≥ t.owed := by
+            have hp := filter_id_perm (run pre).pool t hpool (pool_ids_nodup hi)
+            rw [owedTok_perm t.token hp, owedTok_cons]; simp
+          rw [owedTok_append] at hesc
+          have h2 : t.owed = t.amount + t.tax := rfl
+          omega
+      · exact absurd hm hn
+
+/-- **fundLog_eq.** The funding log is a function of the history: the `fund` ops, newest first. -/
+theorem fundLog_eq (ops : List Op) : (run ops).fundLog = fundsOf ops := by
+  unfold run; rw [foldl_fundLog]; simp [St.init]
+
+/-- **user_ledger** (the balance clause). For every holder and token, in every reachable state:
+what he holds, plus amount+tax of his transfers that are still pending (pool or open batch), plus
+amount+tax of his transfers that were burned, equals what he received from outside (the `fund` ops of
+the history) plus the deposit coins credited to him.  Refunded transfers do not appear: they were made
+whole.  So no balance can be changed arbitrarily without breaking the invariant. -/
+theorem user_ledger (ops : List Op) (u tok : Nat) :
+    (run ops).bal u tok + owedBy u tok ((run ops).pool ++ batched (run ops)) + owedBy u tok (run ops).burned =
+      sumFor u tok (fundsOf ops) + sumFor u tok (run ops).creditLog := by
+  have hl := (reachable_logs ops).ledger u tok
+  have hp := owedBy_perm u tok (reachable_inv ops).life
+  rw [fundLog_eq] at hl
+  simp only [owedBy_append] at hp ⊢
+  omega
+
+/-- **credits_from_deposit_claims.** Every credit of freshly minted coins went to the receiver named in
+a deposit claim of that token and amount that the tally applied successfully — or, as fallback, to the
+community pool. -/
+theorem credits_from_deposit_claims (ops : List Op) (e : Nat × Nat × Nat) (he : e ∈ (run ops).creditLog) :
+    ∃ n r, (n, Claim.deposit e.2.1 e.2.2 r true, Res.ok) ∈ (run ops).applied ∧ (e.1 = communityPool ∨ r = some e.1) :=
+  (reachable_logs ops).creditProv e he
+
+/-- **claims_from_history.** A stored claim was put there by a `claim` op of the history, and there is
+at most one stored claim per nonce. -/
+theorem claims_from_history (ops : List Op) :
+    (∀ x ∈ (run ops).claims, Op.claim x.1 x.2 ∈ ops) ∧ ((run ops).claims.map (·.1)).Nodup := by
+  refine ⟨?_, (reachable_logs ops).claimKeys⟩
+  intro x hx
+  rcases foldl_claims_from ops x St.init hx with h | h
+  · simp [St.init] at h
+  · exact h
+
+/-- **applied_once_in_order.** The tally's observation log holds exactly one entry for each nonce
+`1 … lastObserved` (`lastObserved` is executable state compared with the implementation), newest
+first; each entry is the claim stored under that nonce, which a `claim` op of the history supplied. -/
+theorem applied_once_in_order (ops : List Op) :
+    (run ops).applied.map (·.1) = countdown (run ops).lastObserved ∧
+    ((run ops).applied.map (·.1)).Nodup ∧
+    (∀ e ∈ (run ops).applied, 1 ≤ e.1 ∧ e.1 ≤ (run ops).lastObserved ∧ (e.1, e.2.1) ∈ (run ops).claims ∧
+      Op.claim e.1 e.2.1 ∈ ops) := by
+  have hl := reachable_logs ops
+  refine ⟨hl.nonces, by rw [hl.nonces]; exact countdown_nodup _, ?_⟩
+  intro e he
+  have hm : e.1 ∈ (run ops).applied.map (·.1) := List.mem_map.mpr ⟨e, he, rfl⟩
+  rw [hl.nonces] at hm
+  have hc := hl.fromClaims e he
+  exact ⟨(mem_countdown.mp hm).1, (mem_countdown.mp hm).2, hc, (claims_from_history ops).1 _ hc⟩
+
+/-- **minted_eq_applied** ("plus the deposited amount, once"). The coins ever minted for a token are
+exactly the sum of the amounts of the deposit claims for that token that the tally applied
+successfully — each observed nonce contributing once (`applied_once_in_order`) — and they were all
+credited to somebody. -/
+theorem minted_eq_applied (ops : List Op) (tok : Nat) :
+    (run ops).minted tok = depositsOk tok (run ops).applied ∧
+    (run ops).minted tok = sumTok tok (run ops).creditLog :=
+  ⟨(reachable_logs ops).credit tok, (reachable_logs ops).minted tok⟩
+
+/-- **supply_delta.** Total supply of a token = coins funded from outside (the `fund` ops of the
+history) + the successfully applied deposit claims − (amount + tax) of the burned transfers. -/
+theorem supply_delta (ops : List Op) (tok : Nat) :
+    (run ops).supply tok + owedTok tok (run ops).burned =
+      sumTok tok (fundsOf ops) + depositsOk tok (run ops).applied := by
+  have h := (reachable_inv ops).supply tok
+  have hl := reachable_logs ops
+  rw [hl.funded tok, hl.credit tok, fundLog_eq] at h
+  exact h
+
+/-- **burned_provenance** ("burned because its batch was attested as executed"). A transfer in `burned`
+(i) became burned during an end-block of the history, and (ii) an executed-batch claim for its token was
+observed at some nonce `n ≤ lastObserved` with a successful handler, that claim being the one stored
+under `n`, supplied by a `claim` op of the history.  (`execBatch_burns_its_batch` says what such a
+handler burns: exactly the transfers of the batch the claim names.) -/
+theorem burned_provenance (ops : List Op) (t : Tx) (ht : t ∈ (run ops).burned) :
+    (∃ pre f h now toks ests rest, ops = pre ++ .endBlock f h now toks ests :: rest ∧
+        t ∉ (run pre).burned ∧ t ∈ (run (pre ++ [.endBlock f h now toks ests])).burned) ∧
+    (∃ n nonce eh, (n, Claim.executed t.token nonce eh, Res.ok) ∈ (run ops).applied ∧
+        1 ≤ n ∧ n ≤ (run ops).lastObserved ∧ Op.claim n (.executed t.token nonce eh) ∈ ops) := by
+  constructor
+  · rcases first_appearance apply (·.burned) t ops St.init ht with h | ⟨pre, op, rest, he, hn, hm⟩
+    · simp [St.init] at h
+    · rcases apply_burned (pre.foldl apply St.init) op with h1 | ⟨f, h, now, toks, ests, hop⟩
+      · rw [h1] at hm; exact absurd hm hn
+      · subst hop
+        exact ⟨pre, f, h, now, toks, ests, rest, he, hn, by rw [run_snoc]; exact hm⟩
+  · obtain ⟨n, nonce, eh, hm⟩ := (reachable_logs ops).burnedProv t ht
+    obtain ⟨h1, h2, _, h4⟩ := (applied_once_in_order ops).2.2 _ hm
+    exact ⟨n, nonce, eh, hm, h1, h2, h4⟩
+
+/-- **execBatch_burns_its_batch.** A successfully applied executed-batch claim for `(tok, nonce)` burns
+exactly the transfers of the open batch with that key — the batch disappears, escrow and supply of the
+token go down by the sum of amount plus tax of its transfers — and nothing else changes. -/
+theorem execBatch_burns_its_batch (s : St) (f : Fault) (tok nonce eh : Nat)
+    (hok : (execBatch s f tok nonce eh).2.2 = .ok) :
+    ∃ b ∈ s.batches, b.token = tok ∧ b.nonce = nonce ∧ (execBatch s f tok nonce eh).1 = execOk s b := by
+  rcases execBatch_cases s f tok nonce eh with ⟨hr, _⟩ | ⟨_, b, hfind, _, _, _, h⟩
+  · rw [hr] at hok; cases hok
+  · have ⟨hm, h1, h2⟩ := findBatch_some hfind
+    exact ⟨b, hm, h1, h2, h⟩
+
+/-- **failed_op_is_noop.** Any atomic bridge operation that reports failure (or, for a build, has nothing
+to do) leaves the *whole* state (pool, batches, balances, escrow, supply, counters, usage, archive, logs)
+exactly as it was — for every fault sequence.  An observation whose claim handler fails moves the
+tally's cursor and records the observation, nothing else (`observe`; that is what the chain does: the
+attestation is marked observed, the handler's cached context is dropped). -/
 theorem failed_op_is_noop (s : St) (f : Fault) :
-    (∀ u tok amt h, (send s f u tok amt h).2.2 = .rejected → (send s f u tok amt h).1 = s) ∧
-    (∀ u id, (cancel s f u id).2.2 = .rejected → (cancel s f u id).1 = s) ∧
-    (∀ tok time, (buildOne s f tok time).2.2 = .rejected → (buildOne s f tok time).1 = s) ∧
-    (∀ tok nonce, (cancelBatch s f tok nonce).2.2 = .rejected → (cancelBatch s f tok nonce).1 = s) ∧
-    (∀ tok nonce h, (execBatch s f tok nonce h).2.2 = .rejected → (execBatch s f tok nonce h).1 = s) ∧
-    (∀ tok amt r k, (deposit s f tok amt r k).2.2 = .rejected → (deposit s f tok amt r k).1 = s) ∧
-    (∀ tok nonce est, (setEstimate s f tok nonce est).2.2 = .rejected → (setEstimate s f tok nonce est).1 = s) := by
-  refine ⟨?_, ?_, ?_, ?_, ?_, ?_, ?_⟩
+    (∀ u tok amt h, (send s f u tok amt h).2.2 ≠ .ok → (send s f u tok amt h).1 = s) ∧
+    (∀ u id, (cancel s f u id).2.2 ≠ .ok → (cancel s f u id).1 = s) ∧
+    (∀ tok time, (buildOne s f tok time).2.2 ≠ .ok → (buildOne s f tok time).1 = s) ∧
+    (∀ tok nonce, (cancelBatch s f tok nonce).2.2 ≠ .ok → (cancelBatch s f tok nonce).1 = s) ∧
+    (∀ tok nonce h, (execBatch s f tok nonce h).2.2 ≠ .ok → (execBatch s f tok nonce h).1 = s) ∧
+    (∀ tok amt r k, (deposit s f tok amt r k).2.2 ≠ .ok → (deposit s f tok amt r k).1 = s) ∧
+    (∀ tok nonce est, (setEstimate s f tok nonce est).2.2 ≠ .ok → (setEstimate s f tok nonce est).1 = s) ∧
+    (∀ n c, (observe s f n c).2.2 ≠ .ok →
+      (observe s f n c).1 = { s with lastObserved := n, applied := (n, c, .rejected) :: s.applied }) := by
+  refine ⟨?_, ?_, ?_, ?_, ?_, ?_, ?_, ?_⟩
+  · intro u tok amt h hr
+    rcases send_cases s f u tok amt h with ⟨_, h1⟩ | ⟨h1, _⟩
+    · exact h1
+    · exact absurd h1 hr
+  · intro u id hr
+    rcases cancel_cases s f u id with ⟨_, h1⟩ | ⟨h1, _⟩
+    · exact h1
+    · exact absurd h1 hr
+  · intro tok time hr
+    rcases buildOne_cases s f tok time with ⟨_, h1⟩ | ⟨h1, _⟩
+    · exact h1
+    · exact absurd h1 hr
+  · intro tok nonce hr
+    rcases cancelBatch_cases s f tok nonce with ⟨_, h1⟩ | ⟨h1, _⟩
+    · exact h1
+    · exact absurd h1 hr
+  · intro tok nonce h hr
+    rcases execBatch_cases s f tok nonce h with ⟨_, h1⟩ | ⟨h1, _⟩
+    · exact h1
+    · exact absurd h1 hr
+  · intro tok amt r k hr
+    rcases deposit_cases s f tok amt r k with ⟨_, h1⟩ | ⟨h1, _⟩
+    · exact h1
+    · exact absurd h1 hr
+  · intro tok nonce est hr
+    rcases setEstimate_cases s f tok nonce est with ⟨_, h1⟩ | ⟨h1, _⟩
+    · exact h1
+    · exact absurd h1 hr
+  · intro n c hr
+    exact observe_rejected s f n c hr
+
+/-- **failed_op_leaves_history_state.** History form of the atomic clause: appending to any history a
+send / cancel / direct build that does not report success yields the very same state. -/
+theorem failed_op_leaves_history_state (pre : List Op) (f : Fault) :
+    (∀ u tok amt h, (send (run pre) f u tok amt h).2.2 ≠ .ok → run (pre ++ [.send f u tok amt h]) = run pre) ∧
+    (∀ u id, (cancel (run pre) f u id).2.2 ≠ .ok → run (pre ++ [.cancel f u id]) = run pre) ∧
+    (∀ tok time, (buildOne (run pre) f tok time).2.2 ≠ .ok → run (pre ++ [.build f tok time]) = run pre) := by
+  refine ⟨?_, ?_, ?_⟩
+  · intro u tok amt h hr
+    rw [run_snoc]; exact (failed_op_is_noop (run pre) f).1 u tok amt h hr
+  · intro u id hr
+    rw [run_snoc]; exact (failed_op_is_noop (run pre) f).2.1 u id hr
+  · intro tok time hr
+    rw [run_snoc]; exact (failed_op_is_noop (run pre) f).2.2.1 tok time hr
+
+/-- **results_are_ok_or_failure.** The operations report `ok` or `rejected`; only a build may report
+`noop` (an empty selection), so "`≠ ok`" above is "reported failure or had nothing to do". -/
+theorem results_are_ok_or_failure (s : St) (f : Fault) :
+    (∀ u tok amt h, (send s f u tok amt h).2.2 = .ok ∨ (send s f u tok amt h).2.2 = .rejected) ∧
+    (∀ u id, (cancel s f u id).2.2 = .ok ∨ (cancel s f u id).2.2 = .rejected) ∧
+    (∀ tok nonce, (cancelBatch s f tok nonce).2.2 = .ok ∨ (cancelBatch s f tok nonce).2.2 = .rejected) ∧
+    (∀ tok nonce est, (setEstimate s f tok nonce est).2.2 = .ok ∨ (setEstimate s f tok nonce est).2.2 = .rejected) ∧
+    (∀ c, (applyClaim s f c).2.2 = .ok ∨ (applyClaim s f c).2.2 = .rejected) := by
+  refine ⟨?_, ?_, ?_, ?_, ?_⟩
   · intro u tok amt h
-    unfold send
-    split
-    · intro _; rfl
-    · split
-      · intro _; rfl
-      · simp only
-        split
-        · intro _; rfl
-        · split
-          · intro _; rfl
-          · split
-            · intro _; rfl
-            · split
-              · intro _; rfl
-              · split
-                · intro _; rfl
-                · intro hc; simp at hc
+    rcases send_cases s f u tok amt h with ⟨h1, _⟩ | ⟨h1, _⟩
+    · exact Or.inr h1
+    · exact Or.inl h1
   · intro u id
-    unfold cancel
-    split
-    · intro _; rfl
-    · split
-      · intro _; rfl
-      · split
-        · intro _; rfl
-        · simp only
-          split
-          · intro _; rfl
-          · split
-            · intro _; rfl
-            · intro hc; simp at hc
-  · intro tok time
-    unfold buildOne
-    simp only
-    split
-    · intro hc; simp at hc
-    · split
-      · intro _; rfl
-      · split
-        · intro _; rfl
-        · split
-          · intro _; rfl
-          · intro hc; simp at hc
+    rcases cancel_cases s f u id with ⟨h1, _⟩ | ⟨h1, _⟩
+    · exact Or.inr h1
+    · exact Or.inl h1
   · intro tok nonce
-    unfold cancelBatch
-    split
-    · intro _; rfl
-    · simp only
-      split
-      · intro _; rfl
-      · intro hc; simp at hc
-  · intro tok nonce h
-    unfold execBatch
-    split
-    · intro _; rfl
-    · split
-      · intro _; rfl
-      · simp only
-        split
-        · intro _; rfl
-        · split
-          · intro _; rfl
-          · intro hc; simp at hc
-  · intro tok amt r k
-    unfold deposit depositToPool
-    split
-    · intro _; rfl
-    · split
-      · intro _; rfl
-      · split
-        · split
-          · intro _; rfl
-          · intro hc; simp at hc
-        · split
-          · split
-            · intro _; rfl
-            · intro hc; simp at hc
-          · intro hc; simp at hc
+    rcases cancelBatch_cases s f tok nonce with ⟨h1, _⟩ | ⟨h1, _⟩
+    · exact Or.inr h1
+    · exact Or.inl h1
   · intro tok nonce est
-    unfold setEstimate
+    rcases setEstimate_cases s f tok nonce est with ⟨h1, _⟩ | ⟨h1, _⟩
+    · exact Or.inr h1
+    · exact Or.inl h1
+  · intro c
+    rcases applyClaim_cases s f c with ⟨h1, _⟩ | ⟨h1, _⟩
+    · exact Or.inr h1
+    · exact Or.inl h1
+
+/-- **endBlock_only_whole_steps** (composite: failures started by end-of-block housekeeping).  Whatever
+fault sequence is injected into an end-block — any number of failing collaborator calls, in the
+periodic batch build, in the tally's claim handlers, in the estimate updates, in the time-out sweep —
+the state it ends in is reached from the state it started in by a finite sequence of *whole, successful*
+keeper-level sub-operations (`Whole`: a complete batch build, a complete batch cancellation, a complete
+estimate update, a completely applied executed-batch or deposit claim) and bare observations of claims
+whose handler failed.  A failing build / cancellation / estimate update / claim handler contributes
+nothing at all: no half-done sub-operation is ever visible. -/
+theorem endBlock_only_whole_steps (s : St) (f : Fault) (h now : Nat) (toks : List Nat)
+    (ests : List (Nat × Nat × Nat)) : WholeSteps s (endBlock s f h now toks ests).1 :=
+  whole_innerRel.endBlock s f h now toks ests
+
+/-- **composites_all_failed_noop.** The loops of the end-blocker, each as a whole: if none of the
+sub-operations it started reported success, the state is exactly as it was (for the tally: up to the
+cursor and the observation log). -/
+theorem composites_all_failed_noop (s : St) (f : Fault) :
+    (∀ time toks, (∀ r ∈ (createBatches s f time toks).2.2, r ≠ .ok) → (createBatches s f time toks).1 = s) ∧
+    (∀ fuel, (∀ r ∈ (tally s f fuel).2.2, r ≠ .ok) → CoreEq s (tally s f fuel).1) ∧
+    (∀ ests, (∀ r ∈ (applyEstimates s f ests).2.2, r ≠ .ok) → (applyEstimates s f ests).1 = s) ∧
+    (∀ now bs, (∀ r ∈ (timeouts s f now bs).2.2, r ≠ .ok) → (timeouts s f now bs).1 = s) :=
+  ⟨fun time toks => createBatches_no_ok time toks s f, fun fuel => tally_no_ok fuel s f,
+   fun ests => applyEstimates_no_ok ests s f, fun now bs => timeouts_no_ok now bs s f⟩
+
+/-- **endBlock_all_failed_noop.** A whole end-block in which no sub-operation reported success — every
+build, claim handler, estimate update and time-out cancellation it started failed or had nothing to do,
+under any fault sequence — leaves pool, batches, balances, escrow, supply, archive, usage and every log
+exactly as they were; only the tally's cursor and observation log may have moved. -/
+theorem endBlock_all_failed_noop (s : St) (f : Fault) (h now : Nat) (toks : List Nat)
+    (ests : List (Nat × Nat × Nat)) (hall : ∀ r ∈ (endBlock s f h now toks ests).2.2, r ≠ .ok) :
+    CoreEq s (endBlock s f h now toks ests).1 := by
+  unfold endBlock at hall ⊢
+  simp only at hall ⊢
+  generalize hc : (if h % 50 == 0 then createBatches s f now toks else (s, f, [])) = r1 at hall ⊢
+  have h1 : (∀ r ∈ r1.2.2, r ≠ .ok) → r1.1 = s := by
+    rw [← hc]
     split
+    · exact createBatches_no_ok now toks s f
     · intro _; rfl
-    · split
-      · intro _; rfl
-      · simp only
-        split
-        · intro _; rfl
-        · intro hc; simp at hc
+  have e1 := h1 (fun r hr => hall r (by simp [hr]))
+  have e2 := tally_no_ok r1.1.claims.length r1.1 r1.2.1 (fun r hr => hall r (by simp [hr]))
+  generalize (tally r1.1 r1.2.1 r1.1.claims.length) = r2 at hall e2 ⊢
+  have e3 := applyEstimates_no_ok ests r2.1 r2.2.1 (fun r hr => hall r (by simp [hr]))
+  generalize (applyEstimates r2.1 r2.2.1 ests) = r3 at hall e3 ⊢
+  have e4 := timeouts_no_ok now (batchOrder r3.1.batches) r3.1 r3.2.1 (fun r hr => hall r (by simp [hr]))
+  rw [e4, e3]
+  rw [e1] at e2
+  exact e2
+
+/-- **minted_without_faults** ("plus the deposited amount, once", in executable terms).  In a history
+none of whose ops carries a failing collaborator call, every observed deposit claim for a registered
+token was applied, so the coins ever minted for a token are exactly the deposited amounts of the stored
+claims at the nonces `1 … lastObserved` — each nonce counted once. -/
+theorem minted_without_faults (ops : List Op) (hf : ∀ op ∈ ops, op.points = []) (tok : Nat) :
+    (run ops).minted tok = (((run ops).applied).map (fun e => depositAmt tok e.2.1)).sum ∧
+    ((run ops).applied.map (·.1) = countdown (run ops).lastObserved ∧
+     ∀ e ∈ (run ops).applied, (e.1, e.2.1) ∈ (run ops).claims) := by
+  have hd : DepositsApplied (run ops) := foldl_depositsApplied ops hf St.init (by intro e he; simp [St.init] at he)
+  have hl := reachable_logs ops
+  refine ⟨?_, hl.nonces, hl.fromClaims⟩
+  rw [hl.credit tok]
+  unfold depositsOk
+  congr 1
+  apply List.map_congr_left
+  intro e he
+  exact mintedBy_of_applied tok e (hd e he)
+
+/-- **applied_is_stored_claims.** Which claim the tally observed at which nonce is a function of the
+executable state: the observation log, stripped of the handler results, is the list of the stored
+claims at the nonces `lastObserved, …, 1`. -/
+theorem applied_is_stored_claims (ops : List Op) :
+    (run ops).applied.map (fun e => (e.1, e.2.1)) =
+      (countdown (run ops).lastObserved).filterMap (fun n => (run ops).claims.find? (fun y => y.1 == n)) := by
+  have hl := reachable_logs ops
+  rw [applied_lookup (run ops).claims hl.claimKeys (run ops).applied hl.fromClaims, hl.nonces]
+
+/-- **minted_without_faults_exec.** `minted_without_faults` with the observation log eliminated: in a
+fault-free history the coins ever minted for `tok` are the deposited amounts of the stored claims at the
+nonces `1 … lastObserved` (cursor and stored claims are compared with the implementation after every op). -/
+theorem minted_without_faults_exec (ops : List Op) (hf : ∀ op ∈ ops, op.points = []) (tok : Nat) :
+    (run ops).minted tok =
+      (((countdown (run ops).lastObserved).filterMap (fun n => (run ops).claims.find? (fun y => y.1 == n))).map
+        (fun x => depositAmt tok x.2)).sum := by
+  rw [(minted_without_faults ops hf tok).1, ← applied_is_stored_claims, List.map_map]
+  rfl
 
 /-- the keeper functions the model treats as all-or-nothing -/
 def mustBeAtomic : List String := [
@@ -674,9 +1663,10 @@ def mustBeAtomic : List String := [
 
 /-- **bridge_mutators_atomic.** In the current source (table regenerated by the extractor on every
 run) each of these functions opens a cached context, commits it only on success, and never hands
-the OUTER context to a callee once the cached one exists — which is what `failed_op_is_noop`
-assumes of them. Dropping the guard, committing unconditionally, or writing through the outer
-context makes this `decide` fail. -/
+the OUTER context to a callee once the cached one exists — which is what the model's "a rejected step
+returns the state it was given" assumes of them (the correspondence run with injected faults is the
+dynamic check of the same thing). Dropping the guard, committing unconditionally, or writing through
+the outer context makes this `decide` fail. -/
 theorem bridge_mutators_atomic :
     (mustBeAtomic.all fun f => Paloma.Gen.Atomicity.cachedFunctions.any fun c =>
       c.fn == f && c.conditionalCommit && c.outerContextUses.isEmpty) = true := by decide
@@ -688,18 +1678,37 @@ theorem ids_fresh (ops : List Op) :
     (∀ b ∈ (run ops).batches, b.nonce ≤ (run ops).lastBatch) :=
   ⟨(reachable_inv ops).fresh, (reachable_inv ops).bfresh⟩
 
-/-! ### non-vacuity: a concrete history with a send, a faulted build, a build, an execution -/
+/-! ### non-vacuity: concrete histories through `run` from the initial state -/
+
+/-- a send, a faulted build, a cancel, a build, a deposit and an execution attested in one end-block -/
 def demoOps : List Op :=
   [ .fund 1 1 1000, .setTax 1 (some { num := 1, den := 3, exempt := [] }),
     .send Fault.none 1 1 100 10, .send Fault.none 1 1 50 11,
-    .build { target := tPick, nth := 1 } 1 1000,       -- injected relayer-selection failure
+    .build (Fault.at tPick 1) 1 1000,       -- injected relayer-selection failure
     .cancel Fault.none 1 2,
     .build Fault.none 1 1000,
-    .claim 1 (.executed 1 1 5),
+    .claim 1 (.executed 1 1 5), .claim 2 (.deposit 1 70 (some 2) true), .claim 2 (.deposit 1 999 (some 2) true),
     .endBlock Fault.none 7 1001 [1] [] ]
 
 example : (run demoOps).pool = [] ∧ (run demoOps).batches = [] ∧ (run demoOps).escrow 1 = 0 ∧
-    (run demoOps).supply 1 = 1000 - 133 ∧ ((run demoOps).burned.map (·.id)) = [1] ∧
-    ((run demoOps).refunded.map (·.id)) = [2] := by decide
+    (run demoOps).supply 1 = 1000 - 133 + 70 ∧ ((run demoOps).burned.map (·.id)) = [1] ∧
+    ((run demoOps).refunded.map (·.id)) = [2] ∧ (run demoOps).bal 1 1 = 1000 - 133 ∧ (run demoOps).bal 2 1 = 70 ∧
+    (run demoOps).lastObserved = 2 ∧ (run demoOps).minted 1 = 70 ∧
+    (run demoOps).applied = [(2, .deposit 1 70 (some 2) true, .ok), (1, .executed 1 1 5, .ok)] ∧
+    (run demoOps).creditLog = [(2, 1, 70)] ∧ fundsOf demoOps = [(1, 1, 1000)] := by decide
+
+/-- two failing collaborator calls inside one end-block (the 1st burn and the 1st mint): both claims are
+observed, neither is applied, and everything but cursor and observation log is untouched -/
+def demoFaulted : List Op :=
+  [ .fund 1 1 1000, .send Fault.none 1 1 100 10, .build Fault.none 1 1000,
+    .claim 1 (.executed 1 1 5), .claim 2 (.deposit 1 70 (some 2) true),
+    .endBlock { points := [(tBurn, 1), (tMint, 1)] } 7 1001 [1] [] ]
+
+example : ((run demoFaulted).batches.map (·.nonce)) = [1] ∧ (run demoFaulted).escrow 1 = 100 ∧
+    (run demoFaulted).supply 1 = 1000 ∧ (run demoFaulted).burned = [] ∧ (run demoFaulted).minted 1 = 0 ∧
+    (run demoFaulted).lastObserved = 2 ∧
+    (run demoFaulted).applied = [(2, .deposit 1 70 (some 2) true, .rejected), (1, .executed 1 1 5, .rejected)] ∧
+    (endBlock (run (demoFaulted.take 5)) { points := [(tBurn, 1), (tMint, 1)] } 7 1001 [1] []).2.2 = [.rejected, .rejected] := by
+  decide
 
 end Paloma.Bridge
